@@ -203,7 +203,7 @@ Inductive flow (S R : Type) : Type := Next (s : S) | Ret (r : R) | Fail (e : err
 Arguments Ok {R} r.  Arguments Err {R} e.
 Arguments Next {S R} s.  Arguments Ret {S R} r.  Arguments Fail {S R} e.
 """
-EXTRA_ERRORS = ("AssertionError", "TypeError", "NegativePower", "ValueError", "KeyError")
+EXTRA_ERRORS = ("AssertionError", "TypeError", "NegativePower", "ValueError", "KeyError", "AttributeError", "NoneValue")
 HELPERS = {
     "list_set": """\
 (* xs[i] = v at a position counted from the front; None = IndexError *)
@@ -256,6 +256,14 @@ Fixpoint adict_set {K V : Type} (keqb : K -> K -> bool) (d : list (K * V)) (k : 
   match d with
   | nil => cons (k, v) nil
   | cons (k', v') d' => if keqb k k' then cons (k', v) d' else cons (k', v') (adict_set keqb d' k v)
+  end."""
+HELPERS["zip_levels"] = """\
+(* the levels of two subtrees side by side: the nodes of each depth, those of the first subtree first *)
+Fixpoint zip_levels {X : Type} (a b : list (list X)) {struct a} : list (list X) :=
+  match a, b with
+  | nil, _ => b
+  | _, nil => a
+  | cons x a', cons y b' => cons (x ++ y) (zip_levels a' b')
   end."""
 HELPER_DEPS = {"nset": ["list_set"], "zget": ["zpos"], "zset": ["zpos", "list_set"], "dict_mem": ["dict_get"]}
 SET_DEFS2 = """\
@@ -318,13 +326,13 @@ def norm_type(t: str, extra=()) -> str:
             if i >= len(toks) or toks[i] != ")":
                 raise ValueError(t)
             return r, i + 1
-        if toks[i] in BASE_TYPES or toks[i] in extra:
+        if (toks[i] in BASE_TYPES or toks[i] in extra) and toks[i] != "tuple":
             return toks[i], i + 1
         if toks[i] == "pair":                 # pair T1 T2: a Python 2-tuple (immutable)
             a, j = parse(i + 1)
             b, j = parse(j)
             return "pair " + " ".join(x if " " not in x else "(" + x + ")" for x in (a, b)), j
-        if toks[i] in ("list", "option"):
+        if toks[i] in ("list", "option") or (toks[i] == "tuple" and "tuple" in extra):
             if i + 1 >= len(toks) or toks[i + 1] == ")":
                 if toks[i] == "list":
                     return "list", i + 1
@@ -347,6 +355,11 @@ def is_list(t: str) -> bool:
 
 def is_option(t: str) -> bool:
     return t.startswith("option ")
+
+
+def is_tuple(t: str) -> bool:
+    """`tuple T`: a Python tuple used as an immutable sequence of values of type T (sixth extension)."""
+    return t.startswith("tuple ")
 
 
 def arg_of(t: str) -> str:
@@ -392,7 +405,8 @@ def coq_type(t: str, base=None) -> str:
     if t in COQ_TYPE:
         return COQ_TYPE[t]
     a = coq_type(arg_of(t), base)
-    return f"{t.split(' ', 1)[0]} {a if ' ' not in a or is_pair(arg_of(t)) else '(' + a + ')'}"
+    head = "list" if is_tuple(t) else t.split(' ', 1)[0]
+    return f"{head} {a if ' ' not in a or is_pair(arg_of(t)) else '(' + a + ')'}"
 
 
 def inst_type(t: str, sfx: str, parametric) -> str:
@@ -402,7 +416,7 @@ def inst_type(t: str, sfx: str, parametric) -> str:
         return t
     if t == "list":
         return "list elem" + sfx
-    if is_list(t) or is_option(t):
+    if is_list(t) or is_option(t) or is_tuple(t):
         a = inst_type(arg_of(t), sfx, parametric)
         return f"{t.split(' ', 1)[0]} {a if ' ' not in a else '(' + a + ')'}"
     return t + sfx if t in parametric else t
@@ -420,6 +434,8 @@ class FunSpec:
     rec_on: Optional[str] = None          # self-recursive method: the tree parameter the recursion descends on (structural)
     owner: Optional[str] = None           # class whose body holds the definition (an inherited method; default: the class itself)
     mutates: tuple = ()                   # function parameters (dictionaries) the function updates in place: returned with the result
+    fresh: bool = False                   # (sixth extension) the method returns a newly built object (checked): a local may be bound to it
+    generator: bool = False               # (sixth extension) a generator (its body yields): translated as the list of what it yields
 
 
 @dataclass
@@ -436,6 +452,8 @@ class ClassSpec:
     methods: List[FunSpec] = field(default_factory=list)   # in translation order (callees first)
     frozen: bool = False                  # `@dataclass(frozen=True)` class with methods: fields are the annotated attributes
     base: Optional[str] = None            # frozen classes: the one base class (its fields come first, its methods are inherited)
+    views: Dict[str, str] = field(default_factory=dict)    # (sixth extension) attribute -> translated class: the attribute refers to
+                                          # an object that lives elsewhere (a view borrows it: see `Unit.use_tables`)
 
 
 @dataclass
@@ -489,15 +507,31 @@ class _Fun:
         self.callpos: set = set()
         self.in_rec = False
         self.subtrees: set = set()            # variables bound to strict subtrees of the recursion parameter
+        self.viewvars: Dict[str, str] = {}    # (sixth extension) self'<attribute referring to an object> -> its class
+        self.cursor_roots: Dict[str, str] = {}   # reference variable -> the variable holding the root it refers into
+        self.uses_vars: set = set()           # the tracked section variables (other than eqb) the generated text depends on
+        self.enum_defaults: Dict[str, str] = {}
         if cls is not None:
             self.spec = replace(spec, types=dict(spec.types))
             for f, t in cls.fields.items():
+                if f in cls.views:
+                    # an attribute that refers to an object living elsewhere: the attributes of that object are variables of
+                    # their own (self.f.g is self'f'g), self.f itself is the record built from them
+                    target = unit.classes[cls.views[f]]
+                    self.viewvars["self'" + f] = target.name
+                    self.spec.types["self'" + f] = target.name
+                    for g, gt in target.fields.items():
+                        self.spec.types[f"self'{f}'{g}"] = gt
+                        self.fieldvars.append(f"self'{f}'{g}")
+                    continue
                 self.spec.types["self'" + f] = t
                 self.fieldvars.append("self'" + f)
         self.uses_eqb = False                 # does the generated text depend on the section's `eqb`?
         self.R = self.ct(spec.ret) if spec.ret else None
         if unit is not None:
             self.rename_reserved()
+            if unit.tables:
+                self.split_for_targets()
 
     def ct(self, t: str) -> str:
         return coq_type(t, self.unit.coq_base() if self.unit is not None else None)
@@ -523,6 +557,26 @@ class _Fun:
             elif isinstance(n, ast.arg) and n.arg in ren:
                 n.arg = ren[n.arg]
 
+    def split_for_targets(self):
+        """`types["x@for"]`: the variable x bound by a `for` (a variable of its own, local to the loop: it is neither defined
+        before the loop nor used after it -- checked when the loop is translated) is declared with that type, whatever the
+        type of the other variable of the same name; inside those loops it is spelled `x_`."""
+        ren = {k[:-4]: k[:-4] + "_" for k in self.spec.types if k.endswith("@for")}
+        if not ren:
+            return
+        names = {n.id for n in ast.walk(self.fn) if isinstance(n, ast.Name)} | {a.arg for a in ast.walk(self.fn) if isinstance(a, ast.arg)}
+        types = dict(self.spec.types)
+        for old, new in ren.items():
+            if new in names or new in types or new in RESERVED:
+                self.abort(self.fn, f"cannot rename the loop variable {old!r}: {new!r} is in use too")
+            types[new] = types.pop(old + "@for")
+            for n in ast.walk(self.fn):
+                if isinstance(n, ast.For) and isinstance(n.target, ast.Name) and n.target.id == old:
+                    for x in ast.walk(n):
+                        if isinstance(x, ast.Name) and x.id == old:
+                            x.id = new
+        self.spec = replace(self.spec, types=types)
+
     def abort(self, node, msg: str):
         raise TranslatorAbort(f"{self.path}:{getattr(node, 'lineno', 0)}: in {self.fn.name}: {msg}")
 
@@ -532,9 +586,22 @@ class _Fun:
         for n in names:
             (self.unit.errors if n in EXTRA_ERRORS else self.unit.helpers).add(n)
 
+    def tables(self) -> bool:
+        return self.unit is not None and self.unit.tables
+
+    def view_term(self, v: str) -> str:
+        """The object the attribute variable `v` (self'f) refers to, as the record of its attributes (term and pattern)."""
+        target = self.unit.classes[self.viewvars[v]]
+        return f"({self.unit.q(target.name)}mk_{target.short} {' '.join(v + chr(39) + g for g in target.fields)})"
+
+    def var_term(self, x: str) -> str:
+        return self.view_term(x) if x in self.viewvars else x
+
     def ty(self, node, name: str) -> str:
-        if name in self.fieldvars:
+        if name in self.fieldvars or name in self.viewvars:
             return self.spec.types[name]
+        if name == "acc'" and self.spec.generator:
+            return self.spec.ret
         if name in RESERVED or "'" in name or not name.isascii():
             self.abort(node, f"the name {name!r} collides with a name used by the generated Coq text")
         if name not in self.spec.types:
@@ -567,7 +634,9 @@ class _Fun:
                         and (self.spec.types[n.func.value.id] == "set" and n.func.attr == "add"
                              or self.kind(self.spec.types[n.func.value.id])[0] == "class"
                              and not any(m.name == n.func.attr and m.pure for m in self.unit.done_methods.get(
-                                 self.kind(self.spec.types[n.func.value.id])[1], []))):
+                                 self.kind(self.spec.types[n.func.value.id])[1], []))
+                             and not (self.unit.tables and n.func.attr in self.unit.classes[
+                                 self.kind(self.spec.types[n.func.value.id])[1]].fields)):
                     out.add(n.func.value.id)     # s.add(e) on a set / a method call on an object
                 elif self.containers() and isinstance(n, ast.Call) and isinstance(n.func, ast.Attribute) \
                         and isinstance(n.func.value, ast.Name) and n.func.value.id in self.spec.types \
@@ -582,6 +651,30 @@ class _Fun:
                             out.add(a.id)
                 elif _is_self_call(n) and not (self.cls is not None and self.cls.frozen) and not self.pure_self_call(n):
                     out.update(self.fieldvars)
+                if self.tables():
+                    if isinstance(n, (ast.Yield, ast.YieldFrom)):
+                        out.add("acc'")
+                    uc = self.updating_call(n)
+                    if uc is not None:                         # f(.., x, ..), f updating the object its parameter holds
+                        for a, q in zip(n.args, uc[1]):
+                            if q in uc[2] and isinstance(a, ast.Name):
+                                out.add(a.id)
+                    if isinstance(n, ast.Subscript) and _base_name(n) is not None:
+                        b = _base_name(n)
+                        if self.spec.types.get(b) == "cursor" and b in self.cursor_roots:
+                            out.add(self.cursor_roots[b])      # reading r[k] may give the defaultdict the key
+                        elif b in self.spec.types and self.kind(arg_of(self.spec.types[b]) if is_option(self.spec.types[b])
+                                                                 else self.spec.types[b])[0] in ("class", "union"):
+                            out.add(b)                         # x[k]..: the chain may update the object x
+                    if isinstance(n, ast.Call) and isinstance(n.func, ast.Name) and self.view_class(n.func.id) and n.args \
+                            and isinstance(n.args[0], ast.Name):
+                        a = n.args[0].id                       # V(obj, ..): what is done through the view is done to obj
+                        if a == "self":
+                            out.update(self.fieldvars)
+                        elif a in self.viewvars:
+                            out.update(v for v in self.fieldvars if v.startswith(a + "'"))
+                        else:
+                            out.add(a)
         return out
 
     def containers(self) -> bool:
@@ -603,6 +696,11 @@ class _Fun:
 
     # state of the object, as a term and as a pattern (the same text)
     def state(self, node) -> str:
+        if self.cls.views:
+            parts = [self.view_term("self'" + f) if f in self.cls.views else "self'" + f for f in self.cls.fields]
+            return f"(mk_{self.cls.short} {' '.join(parts)})"
+        if self.unit is not None and self.cls.name in self.unit.quals:
+            return f"({self.unit.q(self.cls.name)}mk_{self.cls.short} {' '.join(self.fieldvars)})"
         return f"(mk_{self.cls.short} {' '.join(self.fieldvars)})"
 
     # ---------------------------------------------------------------- expressions
@@ -629,6 +727,8 @@ class _Fun:
     def is_fresh(self, e) -> bool:
         """Does `e` build a new list object (so that assigning it creates no alias)?"""
         if isinstance(e, ast.List) and (not e.elts or self.unit is not None):
+            return True
+        if self.tables() and self.product_call(e):
             return True
         if self.fresh_call(e):
             return True
@@ -689,6 +789,8 @@ class _Fun:
             if a != b or a in ("lit", "none", "newlist", "newset") or a.startswith("new "):
                 self.abort(e, f"conditional expression with branches of type {a} and {b}")
             return a
+        elif self.tables() and self.ntype6(e, env) is not None:
+            return self.ntype6(e, env)
         elif isinstance(e, ast.Attribute) and self.unit is not None and isinstance(e.ctx, ast.Load):
             if self.enum_member(e):
                 return e.value.id
@@ -752,7 +854,7 @@ class _Fun:
                 return self.unit.nodedicts[bt][1]
             if self.kind(bt)[0] == "elemdict" and isinstance(e.value, ast.Name) and not isinstance(e.slice, ast.Slice):
                 return self.unit.elemdicts[bt]
-            if not is_list(bt):
+            if not is_list(bt) and not (self.tables() and is_tuple(bt)):
                 self.abort(e, f"indexing a value of type {bt}")
             return arg_of(bt)
         elif isinstance(e, ast.List) and not e.elts:
@@ -806,7 +908,7 @@ class _Fun:
         if not (isinstance(key, ast.Attribute) and self.enum_member(key)
                 and (key.value.id, key.attr) in self.unit.enumdicts[name]):
             self.abort(e, f"key of a {name} other than a declared literal <Enum>.<MEMBER>")
-        return self.unit.enumdicts[name][(key.value.id, key.attr)], f"{name}_{key.attr}", None
+        return self.unit.enumdicts[name][(key.value.id, key.attr)], f"{self.unit.q(name)}{name}_{key.attr}", None
 
     def opaque_call(self, e, env):
         """(argument types, result type, Coq function, receiver expression) when `e` is `x.m(..)` or `x(..)` with x an
@@ -814,8 +916,14 @@ class _Fun:
         f = e.func
         if self.unit is None or not self.unit.opaque_methods:
             return None
-        if isinstance(f, ast.Attribute) and not _is_self_call(e) and not (isinstance(f.value, ast.Name)
-                                                                         and f.value.id == "self"):
+        if self.unit.tables and isinstance(f, ast.Attribute) and isinstance(f.value, ast.Name) and f.value.id in env \
+                and f.value.id in self.spec.types and f.value.id != "self" \
+                and self.kind(self.spec.types[f.value.id])[0] == "class" \
+                and f.attr in self.unit.classes[self.kind(self.spec.types[f.value.id])[1]].fields \
+                and self.unit.classes[self.kind(self.spec.types[f.value.id])[1]].frozen:
+            recv, meth = f, "__call__"           # x.f(..), f a field of the frozen object x: the call of the value of the field
+        elif isinstance(f, ast.Attribute) and not _is_self_call(e) and not (isinstance(f.value, ast.Name)
+                                                                           and f.value.id == "self"):
             if isinstance(f.value, ast.Name) and (f.value.id not in self.spec.types or f.value.id not in env):
                 return None
             recv, meth = f.value, f.attr
@@ -886,7 +994,8 @@ class _Fun:
         if self.unit is None or not (isinstance(f, ast.Attribute) and isinstance(f.value, ast.Name)) \
                 or f.value.id == "self" or f.value.id not in self.spec.types:
             return None
-        k, name, sfx = self.kind(self.spec.types[f.value.id])
+        k, name, sfx = self.kind(self.spec.types[f.value.id] if f.value.id + "!" not in env
+                                 else arg_of(self.spec.types[f.value.id]))
         if k != "class":
             return None
         cls = self.unit.classes[name]
@@ -925,6 +1034,17 @@ class _Fun:
                 and e.args[1].id in self.unit.enums and e.args[1].id not in self.spec.types \
                 and e.args[0].id in env and self.spec.types.get(e.args[0].id) == e.args[1].id:
             return True
+        if self.tables() and isinstance(e, ast.Call) and isinstance(e.func, ast.Name) and e.func.id == "isinstance" \
+                and len(e.args) == 2 and not e.keywords and "isinstance" not in self.spec.types and not self.unit.rebinds("isinstance") \
+                and isinstance(e.args[0], ast.Name) and isinstance(e.args[1], ast.Name) and e.args[0].id in env \
+                and self.spec.types.get(e.args[0].id) in self.unit.markers and e.args[1].id not in self.spec.types:
+            # isinstance(x, C), x declared of a class without attributes: true when C is that class or one of its bases,
+            # false when C is another class of the module
+            d, c = self.spec.types[e.args[0].id], e.args[1].id
+            if c == d or c in self.unit.markers[d]:
+                return True
+            self.unit._unique(self.unit.tree.body, c, ast.ClassDef)
+            return False
         if isinstance(e, ast.BoolOp) and isinstance(e.op, ast.And):
             vals = [self.static_bool(v, env) for v in e.values]
             if all(v is True for v in vals):
@@ -937,6 +1057,8 @@ class _Fun:
         f = e.func
         if e.keywords:
             self.abort(e, "call with keyword arguments")
+        if self.tables() and self.call_type6(e, env) is not None:
+            return self.call_type6(e, env)
         if self.unit is not None and isinstance(f, ast.Name) and f.id not in self.spec.types:
             if f.id == "set" and not e.args:
                 return "newset"
@@ -975,7 +1097,7 @@ class _Fun:
         if oc is not None:
             if not oc[3].ret:
                 self.abort(e, "call of a method that returns nothing, used as a value")
-            return inst_type(oc[3].ret, oc[2], self.unit.parametric())
+            return self.mret(oc[1].name, oc[3], oc[2])
         if isinstance(f, ast.Name) and f.id == "len" or isinstance(f, ast.Attribute) and f.attr == "bit_length":
             return "N"
         if isinstance(f, ast.Name) and f.id == "min" and len(e.args) == 2:
@@ -999,7 +1121,14 @@ class _Fun:
                 and isinstance(e.ctx, ast.Load):
             wa, wb = pair_args(want)                     # components left to right
             return f"({self.expr(e.elts[0], wa, env, hoist)}, {self.expr(e.elts[1], wb, env, hoist)})"
+        if self.tables():
+            want = self.canon(want)
+            r = self.expr6(e, want, env, hoist)
+            if r is not None:
+                return r
         t = self.ntype(e, env)
+        if self.tables():
+            t = self.canon(t)
         if want == "bool" and t in ("N", "Z", "lit"):        # truthiness of an int
             t = "Z" if t == "lit" else t
             return f"(negb ({t}.eqb {self.raw(e, t, env, hoist)} 0%{t}))"
@@ -1046,7 +1175,7 @@ class _Fun:
             if self.ntype(e.keys[0], env) != tree:
                 self.abort(e, f"key of a {want} that is not a node of a {tree}")
             k = self.raw(e.keys[0], tree, env, hoist)                      # key first, then the value
-            return f"(cons ({tree}_id {k}, {self.expr(e.values[0], vt, env, hoist)}) nil)"
+            return f"(cons ({self.unit.q(tree)}{tree}_id {k}, {self.expr(e.values[0], vt, env, hoist)}) nil)"
         if t.startswith("new "):
             if self.kind(want)[:2] != (("data" if t[4:] in self.unit.datas else "foreign" if t[4:] in self.unit.foreigns
                                         else "class"), t[4:]):
@@ -1077,6 +1206,10 @@ class _Fun:
         return self.raw(e, t, env, hoist)
 
     def raw(self, e, t: str, env, hoist) -> str:
+        if self.tables():
+            r = self.raw6(e, t, env, hoist)
+            if r is not None:
+                return r
         if isinstance(e, ast.Constant):
             if t == "bool":
                 return "true" if e.value else "false"
@@ -1084,6 +1217,8 @@ class _Fun:
                 self.abort(e, "literal outside the handled subset")
             return f"{e.value}%{t}"
         if isinstance(e, ast.Name):
+            if e.id in self.viewvars:
+                return self.view_term(e.id)
             return e.id if self.const_of(e) is None else self.const_of(e)[1]
         if isinstance(e, ast.UnaryOp) and isinstance(e.op, ast.USub) and isinstance(e.operand, ast.Name):
             return self.const_of(e.operand)[2]
@@ -1096,10 +1231,10 @@ class _Fun:
             return f"(if {c} then {a} else {b})"
         if isinstance(e, ast.Attribute):
             if self.enum_member(e):
-                return f"{e.value.id}_{e.attr}"
+                return f"{self.unit.q(e.value.id)}{e.value.id}_{e.attr}"
             vt = self.ntype(e.value, env)
             k, name, _ = self.kind(vt)
-            return f"({self.unit.classes[name].short if k == 'class' else name}_{e.attr} {self.raw(e.value, vt, env, hoist)})"
+            return f"({self.unit.q(name)}{self.unit.classes[name].short if k == 'class' else name}_{e.attr} {self.raw(e.value, vt, env, hoist)})"
         if isinstance(e, ast.Set):
             return f"(cons {self.expr(e.elts[0], 'elem' + self.kind(t)[2], env, hoist)} nil)"
         if isinstance(e, ast.UnaryOp) and isinstance(e.op, ast.USub):
@@ -1143,7 +1278,7 @@ class _Fun:
             if self.ntype(e.left, env) != tree:
                 self.abort(e, f"membership test in {d} of something that is not a node of a {tree}")
             self.need("dict_mem")
-            term = f"(dict_mem {eqf} {d} ({tree}_id {self.raw(e.left, tree, env, hoist)}))"
+            term = f"(dict_mem {eqf} {d} ({self.unit.q(tree)}{tree}_id {self.raw(e.left, tree, env, hoist)}))"
             return f"(negb {term})" if isinstance(e.ops[0], ast.NotIn) else term
         if isinstance(e, ast.Compare):
             if len(e.ops) != 1 or type(e.ops[0]) not in CMPOPS:
@@ -1171,7 +1306,7 @@ class _Fun:
                 self.uses_eqb = True
                 a, b, f = self.expr(e.left, "set", env, hoist), self.expr(e.comparators[0], "set", env, hoist), "set_subset"
             elif lt == rt and self.kind(lt)[0] == "enum" and fn == "eqb":
-                a, b, f = self.expr(e.left, lt, env, hoist), self.expr(e.comparators[0], lt, env, hoist), lt + "_eqb"
+                a, b, f = self.expr(e.left, lt, env, hoist), self.expr(e.comparators[0], lt, env, hoist), self.unit.q(lt) + lt + "_eqb"
             else:
                 ct = self.join(e, lt, rt)
                 ct = "Z" if ct == "lit" else ct
@@ -1201,7 +1336,7 @@ class _Fun:
             if key is None:
                 return f"({proj} {d})"
             kt = self.ntype(key, env)
-            return f"({d} ({kt}_id {self.raw(key, kt, env, hoist)}))"
+            return f"({d} ({self.unit.q(kt)}{kt}_id {self.raw(key, kt, env, hoist)}))"
         if isinstance(e, ast.Subscript) and self.unit is not None and is_pair(self.ntype(e.value, env)):
             return f"({('fst', 'snd')[self.pair_index(e)]} {self.raw(e.value, self.ntype(e.value, env), env, hoist)})"
         if isinstance(e, ast.Subscript) and self.edict_of(e.value, env) is not None:
@@ -1224,7 +1359,7 @@ class _Fun:
             key = self.raw(e.slice, tree, env, hoist)
             self.nt += 1
             tmp = f"t'{self.nt}"
-            hoist.append(("unwrap", tmp, f"dict_get {eqf} {e.value.id} ({tree}_id {key})", "KeyError"))
+            hoist.append(("unwrap", tmp, f"dict_get {eqf} {e.value.id} ({self.unit.q(tree)}{tree}_id {key})", "KeyError"))
             return tmp
         if isinstance(e, ast.Subscript) and isinstance(e.value, ast.Name) and self.unit is not None \
                 and self.kind(self.ntype(e.value, env))[0] == "nodedict":
@@ -1234,14 +1369,14 @@ class _Fun:
                 self.abort(e, f"key of {e.value.id} that is not a node of a {tree}")
             self.need("dict_get", "KeyError")
             self.nt += 1
-            hoist.append(("unwrap", f"t'{self.nt}", f"dict_get {eqf} {e.value.id} ({tree}_id {self.raw(e.slice, tree, env, hoist)})",
+            hoist.append(("unwrap", f"t'{self.nt}", f"dict_get {eqf} {e.value.id} ({self.unit.q(tree)}{tree}_id {self.raw(e.slice, tree, env, hoist)})",
                           "KeyError"))
             return f"t'{self.nt}"
         if isinstance(e, ast.Subscript):
             if isinstance(e.slice, ast.Slice):
                 self.abort(e, "only xs[i] with xs a declared sequence variable is handled")
             if isinstance(e.value, ast.Name):
-                if not is_list(self.ntype(e.value, env)):
+                if not is_list(self.ntype(e.value, env)) and not (self.tables() and is_tuple(self.ntype(e.value, env))):
                     self.abort(e, "only xs[i] with xs a declared sequence variable is handled")
                 seq = e.value.id
             elif isinstance(e.value, ast.Subscript) and self.unit is not None:
@@ -1307,6 +1442,10 @@ class _Fun:
 
     def call(self, e, t: str, env, hoist) -> str:
         f = e.func
+        if self.tables():
+            r = self.call6(e, t, env, hoist)
+            if r is not None:
+                return r
         if isinstance(f, ast.Name) and f.id == "len" and len(e.args) == 1 \
                 and isinstance(e.args[0], ast.Name) and is_list(self.ntype(e.args[0], env)):
             return f"(N.of_nat (length {e.args[0].id}))"
@@ -1324,7 +1463,7 @@ class _Fun:
             self.abort(e, "call outside the handled subset (len(xs), e.bit_length())")
         if self.tree_test(e, env) is not None:
             x = self.tree_test(e, env)
-            return f"({self.spec.types[x.id]}_is_leaf {x.id})"
+            return f"({self.unit.q(self.spec.types[x.id])}{self.spec.types[x.id]}_is_leaf {x.id})"
         if self.opaque_call(e, env) is not None:
             argts, _, coq, recv = self.opaque_call(e, env)
             if len(argts) != len(e.args) or any(isinstance(a, ast.Starred) for a in e.args):
@@ -1377,11 +1516,19 @@ class _Fun:
                 return "(" + " ".join([coq] + [self.expr(a, at, env, hoist) for a, at in zip(e.args, argts)]) + ")"
             if f.id in self.unit.datas:
                 d, sfx = self.unit.datas[f.id], self.kind(t)[2]
+                dflt = self.unit.data_defaults.get(f.id, {}) if self.tables() else {}
+                if len(e.args) < len(d.fields) and all(x in dflt for x in list(d.fields)[len(e.args):]) \
+                        and not any(isinstance(a, ast.Starred) for a in e.args):
+                    # the fields left out have a default value (None)
+                    args = [self.expr(a, inst_type(ft, sfx, self.unit.parametric()), env, hoist)
+                            for a, ft in zip(e.args, d.fields.values())]
+                    args += [dflt[x] for x in list(d.fields)[len(e.args):]]
+                    return f"({self.unit.q(f.id)}mk_{f.id} {' '.join(args)})"
                 if len(e.args) != len(d.fields) or any(isinstance(a, ast.Starred) for a in e.args):
                     self.abort(e, f"{f.id}(..) is only translated with every field given as a positional argument")
                 args = [self.expr(a, inst_type(ft, sfx, self.unit.parametric()), env, hoist)
                         for a, ft in zip(e.args, d.fields.values())]
-                return f"(mk_{f.id} {' '.join(args)})"
+                return f"({self.unit.q(f.id)}mk_{f.id} {' '.join(args)})"
             if f.id in self.unit.classes:
                 cls, sfx = self.unit.classes[f.id], self.kind(t)[2]
                 init = next((m for m in self.unit.done_methods.get(f.id, []) if m.name == "__init__"), None)
@@ -1389,7 +1536,7 @@ class _Fun:
                     self.abort(e, f"construction of a {f.id}, whose __init__ is not translated before this function")
                 args = self.method_args(e, cls, init, sfx, env, hoist)
                 self.nt += 1
-                hoist.append(("call", f"t'{self.nt}", " ".join([self.callee(e, cls, init, sfx)] + args)))
+                hoist.append(("call", f"t'{self.nt}", self.mcall(e, cls, init, sfx, None, args)))
                 return f"t'{self.nt}"
         if self.foreign_call(e, env) is not None:
             argts, _, coq, lift, x = self.foreign_call(e, env)
@@ -1413,7 +1560,7 @@ class _Fun:
                 self.abort(e, f"variable {x!r} is not definitely assigned here")
             args = self.method_args(e, cls, m, sfx, env, hoist)
             self.nt += 1
-            hoist.append(("call", f"(_, t'{self.nt})", " ".join([self.callee(e, cls, m, sfx), x] + args)))
+            hoist.append(("call", f"(_, t'{self.nt})", self.mcall(e, cls, m, sfx, self.var_term(x), args)))
             return f"t'{self.nt}"
         if isinstance(f, ast.Name) and f.id == "min" and len(e.args) == 2:
             if not self.unit.elem_lt:
@@ -1615,6 +1762,8 @@ class _Fun:
         """Head of a call of the generated method `m` of `cls`, for the instance `sfx` of the class."""
         name = self.prefix + (m.alias or m.name)
         dep = self.unit.method_uses_eqb.get((cls.name, _mkey(m)), False)
+        if self.tables():
+            self.uses_vars |= self.unit.method_uses_vars.get((cls.name, _mkey(m)), set())
         if not self.unit.outside:
             if sfx:
                 self.abort(node, "a second instance of the class inside the section of the class")
@@ -1632,18 +1781,37 @@ class _Fun:
         params = self.unit.params[(cls.name, _mkey(m))]
         var = self.unit.varargs.get((cls.name, _mkey(m)))
         par = self.unit.parametric()
-        if any(isinstance(a, ast.Starred) for a in e.args) or e.keywords:
+        star = self.tables() and var is not None and not e.keywords \
+            and not any(isinstance(a, ast.Starred) for a in e.args[:len(params)])
+        if (any(isinstance(a, ast.Starred) for a in e.args) and not star) or e.keywords:
             self.abort(e, "call with starred or keyword arguments")
-        if len(e.args) < len(params) or (var is None and len(e.args) != len(params)):
+        dflt = self.unit.method_defaults.get((cls.name, _mkey(m)), {}) if self.tables() else {}
+        if len(e.args) < len(params) and var is None and all(q in dflt for q in params[len(e.args):]):
+            pass                               # the parameters left out have an (enum member) default
+        elif len(e.args) < len(params) or (var is None and len(e.args) != len(params)):
             self.abort(e, f"{m.name}() called with {len(e.args)} arguments")
         args = []
         for a, p in zip(e.args, params):
             pt = inst_type(m.types[p], sfx, par)
             if is_list(pt) or self.kind(pt)[0] in ("set", "class"):
-                self.abort(e, "mutable argument (list, set, object) to a method")
+                if not (self.tables() and self.kind(pt)[0] == "class" and isinstance(a, ast.Name) and a.id in env
+                        and self.read_only_param(cls, m, p)):
+                    self.abort(e, "mutable argument (list, set, object) to a method")
             if any(_is_self_call(n) for n in ast.walk(a)) and not nested:
                 self.abort(e, "method call inside the arguments of a method call")
             args.append(self.expr(a, pt, env, hoist))
+        args += [dflt[q] for q in params[len(e.args):]] if var is None else []
+        if var is not None and star and any(isinstance(a, ast.Starred) for a in e.args):
+            # f(.., *xs, y, *zs): the items of xs, then y, then the items of zs -- one list
+            et = inst_type(arg_of(m.types[var]), sfx, par)
+            parts = []
+            for a in e.args[len(params):]:
+                if isinstance(a, ast.Starred):
+                    parts.append(self.starred(a, et, env, hoist))
+                else:
+                    parts.append(f"(cons {self.expr(a, et, env, hoist)} nil)")
+            args.append(parts[0] if len(parts) == 1 else "(" + " ++ ".join(parts) + ")")
+            return args
         if var is not None:
             et = inst_type(arg_of(m.types[var]), sfx, par)
             items = [self.expr(a, et, env, hoist) for a in e.args[len(params):]]     # evaluated left to right
@@ -1668,7 +1836,969 @@ class _Fun:
             elif h[0] == "call":
                 lines = [f"match {h[2]} with", f"| Err e' => " + ctx.fail("e'"), f"| Ok {h[1]} =>"] \
                     + _ind(lines) + ["end"]
+            elif h[0] == "let":
+                lines = [f"let {h[1]} := {h[2]} in"] + lines
         return lines
+
+    # ---------------------------------------------------------------- sixth extension: expressions
+    def mcall(self, node, cls: ClassSpec, m: FunSpec, sfx: str, recv: Optional[str], args: List[str]) -> str:
+        """The call of the generated method `m` of `cls` (instance `sfx`) on the object term `recv` (None: `__init__`).  A
+        class taken from another generated file: the declared head of the call, the result converted with that file's lift."""
+        if self.tables() and (cls.name, _mkey(m)) in getattr(self.unit, "local_heads", {}):
+            return " ".join([self.unit.local_heads[(cls.name, _mkey(m))]] + ([recv] if recv is not None else []) + args)
+        if cls.name not in self.unit.quals or (cls.name, _mkey(m)) in self.unit.local_methods:
+            if self.tables():
+                self.uses_vars |= self.unit.method_uses_vars.get((cls.name, _mkey(m)), set())
+            return " ".join([self.callee(node, cls, m, sfx)] + ([recv] if recv is not None else []) + args)
+        a, eq = self.unit.insts[sfx]
+        head = self.unit.heads[(cls.name, _mkey(m))]
+        if "{eqb}" in head:
+            if eq is None:
+                self.abort(node, f"{cls.name}.{m.name} compares elements, and no equality is declared for this instance")
+            if eq == "eqb":
+                self.uses_eqb = True
+        for v in self.unit.section_vars:
+            if v in head.split() or v + ")" in head:
+                self.uses_vars.add(v)
+        head = head.replace("{A2}", self.unit.insts.get("2", ("", None))[0]).replace("{eqb2}", self.unit.insts.get("2", ("", ""))[1] or "")
+        head = head.replace("{A}", a).replace("{eqb}", eq or "")
+        lift = self.unit.head_lift[(cls.name, _mkey(m))]
+        return f"{lift} (" + " ".join([head] + ([recv] if recv is not None else []) + args) + ")"
+
+    def mret(self, cname: str, m: FunSpec, sfx: str) -> str:
+        """Result type of the method `m` of the class `cname` called on an object of the instance `sfx`."""
+        if self.tables() and (cname, _mkey(m)) in self.unit.ret_override:
+            return self.unit.ret_override[(cname, _mkey(m))]
+        return inst_type(m.ret, sfx, self.unit.parametric())
+
+    def seq(self, t: str) -> bool:
+        return is_list(t) or is_tuple(t)
+
+    def ctp(self, t: str) -> str:
+        c = self.ct(t)
+        return c if " " not in c else "(" + c + ")"
+
+    def canon(self, t: str) -> str:
+        """The declared type `t` with the names the unit declares as other names of a type (`Unit.same_type`) replaced."""
+        if not self.unit.type_alias or not t:
+            return t
+        return " ".join(self.unit.type_alias.get(w, w) for w in t.replace("(", " ( ").replace(")", " ) ").split()) \
+            .replace("( ", "(").replace(" )", ")")
+
+    def traverse_of(self, a, env):
+        """(tree type, strategy, receiver expression) when `a` is `<tree>.traverse()` / `.traverse("<strategy>")`."""
+        if not (self.tables() and isinstance(a, ast.Call) and isinstance(a.func, ast.Attribute) and a.func.attr == "traverse"
+                and not a.keywords and len(a.args) <= 1):
+            return None
+        if a.args and not (isinstance(a.args[0], ast.Constant) and a.args[0].value in ("levelorder", "postorder", "preorder")):
+            return None
+        try:
+            tt = self.ntype(a.func.value, env)
+        except TranslatorAbort:
+            return None
+        if self.kind(tt)[0] != "tree":
+            return None
+        return tt, (a.args[0].value if a.args else "levelorder"), a.func.value   # ete3: the default strategy is levelorder
+
+    def celltype(self) -> Optional[str]:
+        return self.unit.cellspec["name"] if self.tables() and self.unit.cellspec else None
+
+    def cell_fn(self, fn: str) -> str:
+        """A helper of the cell type (they use the key equality of the Section)."""
+        c = self.unit.cellspec
+        self.uses_vars.add(c["keqb"])
+        return f"{self.unit.q(c['name'])}{c['name']}_{fn}"
+
+    def is_cursor(self, n, env) -> bool:
+        return self.tables() and isinstance(n, ast.Name) and n.id in env and self.spec.types.get(n.id) == "cursor"
+
+    def cursor_root(self, node, c: str) -> str:
+        if c not in self.cursor_roots:
+            self.abort(node, f"the reference {c!r} is not bound exactly once, to a variable holding the root of a nested table")
+        return self.cursor_roots[c]
+
+    def scan_cursors(self):
+        """A variable declared `cursor` is bound to a root exactly once, by `c = <variable of the cell type>`; every other
+        assignment to it is `c = c[k]`."""
+        if not self.tables() or not self.unit.cellspec:
+            return
+        ct = self.unit.cellspec["name"]
+        for c in [v for v, t in self.spec.types.items() if t == "cursor"]:
+            roots = []
+            for n in ast.walk(self.fn):
+                if isinstance(n, (ast.Assign, ast.AnnAssign, ast.AugAssign, ast.For, ast.With, ast.NamedExpr)):
+                    tg = n.targets if isinstance(n, ast.Assign) else [getattr(n, "target", None)]
+                    for tnode in tg:
+                        if tnode is None or not any(isinstance(x, ast.Name) and x.id == c and isinstance(x.ctx, ast.Store)
+                                                    for x in ast.walk(tnode)):
+                            continue
+                        if not (isinstance(n, ast.Assign) and len(n.targets) == 1 and isinstance(tnode, ast.Name)):
+                            self.abort(n, f"the reference {c!r} is assigned otherwise than by 'c = <root>' / 'c = c[k]'")
+                        v = n.value
+                        if isinstance(v, ast.Name) and self.spec.types.get(v.id) == ct and v.id not in self.params:
+                            roots.append(v.id)
+                        elif not (isinstance(v, ast.Subscript) and isinstance(v.value, ast.Name) and v.value.id == c
+                                  and not isinstance(v.slice, ast.Slice)):
+                            self.abort(n, f"the reference {c!r} is assigned otherwise than by 'c = <root>' / 'c = c[k]'")
+            if c in self.params or len(roots) != 1:
+                self.abort(self.fn, f"the reference {c!r} must be a local variable bound exactly once to a variable holding a root")
+            self.cursor_roots[c] = roots[0]
+
+    def view_class(self, name: str) -> bool:
+        return self.tables() and name in self.unit.classes and bool(self.unit.classes[name].views)
+
+    def viewish(self, t: str) -> bool:
+        """A type whose values borrow another object: a view class or a union of view classes."""
+        k, name, _ = self.kind(t)
+        return (k == "class" and self.view_class(name)) or (k == "union" and all(self.view_class(m) for m in self.unit.unions[name]))
+
+    def parent_of(self, t: str, term: str) -> str:
+        """The object a value of the view type `t` refers to."""
+        k, name, _ = self.kind(t)
+        if k == "union":
+            return f"({self.unit.q(name)}{name}_parent {term})"
+        cls = self.unit.classes[name]
+        return f"({self.unit.q(name)}{cls.short}_{list(cls.views)[0]} {term})"
+
+    def chain_parse(self, e, env):
+        """(base, steps) when `e` is a chain `B[k]..`, `B.m(..)..` of subscripts and method calls whose base B is the
+        construction `V(obj, ..)` of a view, or a variable holding an object of a class / union that is subscripted or a view;
+        else None.  base = ('view', call) | ('var', name); a step = ('sub', node) | ('call', node)."""
+        if not self.tables():
+            return None
+        steps, n = [], e
+        while True:
+            if isinstance(n, ast.Subscript) and not isinstance(n.slice, ast.Slice):
+                steps.append(("sub", n))
+                n = n.value
+            elif isinstance(n, ast.Call) and isinstance(n.func, ast.Attribute) and not n.keywords:
+                steps.append(("call", n))
+                n = n.func.value
+            else:
+                break
+        steps.reverse()
+        if not steps:
+            return None
+        if isinstance(n, ast.Call) and isinstance(n.func, ast.Name) and n.func.id not in self.spec.types \
+                and self.view_class(n.func.id) and not n.keywords:
+            return ("view", n), steps
+        if isinstance(n, ast.Name) and n.id in env and n.id in self.spec.types and n.id != "self":
+            t = self.vtype(n, n.id, env)
+            k = self.kind(t)[0]
+            if k == "union" or (k == "class" and (steps[0][0] == "sub" or self.view_class(self.kind(t)[1]))):
+                return ("var", n.id), steps
+        return None
+
+    def step_method(self, node, t: str, step):
+        """(class spec, instance suffix, method spec, argument nodes) of a step on a receiver of type `t`."""
+        k, name, sfx = self.kind(t)
+        if k not in ("class", "union"):
+            self.abort(node, f"subscript / method call on a value of type {t} in a chain")
+        mname = "__getitem__" if step[0] == "sub" else step[1].func.attr
+        m = next((x for x in self.unit.done_methods.get(name, []) if x.name == mname), None)
+        if m is None:
+            self.abort(node, f"{mname!r} is not a method of {name} translated before this function")
+        args = [step[1].slice] if step[0] == "sub" else list(step[1].args)
+        cls = self.unit.classes[name] if k == "class" else ClassSpec(name, name, {})
+        return cls, sfx, m, args
+
+    def chain_type(self, e, env) -> Optional[str]:
+        cp = self.chain_parse(e, env)
+        if cp is None:
+            return None
+        base, steps = cp
+        t = base[1].func.id if base[0] == "view" else self.vtype(e, base[1], env)
+        for st in steps:
+            _, sfx, m, _ = self.step_method(e, t, st)
+            if not m.ret or m.ret == "unit":
+                return "unit"
+            t = self.mret(self.kind(t)[1], m, sfx)
+        return t
+
+    def borrow(self, node, a, env):
+        """(what a view is taken of, the term of that object): `self` in a method of the viewed class, an attribute of self
+        that refers to the object (self'f), or a variable."""
+        if isinstance(a, ast.Name) and a.id == "self" and self.cls is not None and not self.cls.views:
+            return ("self",), self.state(node)
+        if isinstance(a, ast.Name) and a.id in self.viewvars:
+            return ("viewvar", a.id), self.view_term(a.id)
+        if isinstance(a, ast.Name) and a.id in env and a.id in self.spec.types and self.kind(self.vtype(a, a.id, env))[0] == "class":
+            return ("var", a.id), a.id
+        self.abort(node, "a view is only taken of self, of an attribute of self that refers to an object, or of a variable")
+
+    def view_new(self, call, env, hoist):
+        """`V(obj, args)`, V a view class: (temporary holding the new view, what it borrows)."""
+        V = call.func.id
+        cls = self.unit.classes[V]
+        init = next((m for m in self.unit.done_methods.get(V, []) if m.name == "__init__"), None)
+        if init is None:
+            self.abort(call, f"construction of a {V}, whose __init__ is not translated before this function")
+        params = self.unit.params[(V, "__init__")]
+        if len(call.args) != len(params) or any(isinstance(a, ast.Starred) for a in call.args) or call.keywords \
+                or init.types[params[0]] != list(cls.views.values())[0]:
+            self.abort(call, f"{V}(..): the object viewed first, then every other parameter positionally")
+        src, term = self.borrow(call, call.args[0], env)
+        args = [term] + [self.expr(a, init.types[q], env, hoist) for a, q in zip(call.args[1:], params[1:])]
+        self.nt += 1
+        tmp = f"t'{self.nt}"
+        hoist.append(("call", tmp, self.mcall(call, cls, init, "", None, args)))
+        return tmp, src
+
+    def chain(self, e, env, hoist, last_args: Optional[List[str]] = None, setitem=None):
+        """Translate the chain `e`; returns (term of its value or None, its type).  The views it goes through are
+        temporaries; once the chain is evaluated, the object they borrow is read back from the last one (a view is only
+        ever built by a `return` -- see `fresh view` in `block` --, so the last view holds the object as it is now).
+        `setitem = (key node, value term)`: a final `[key] = value` on the value of `e`."""
+        base, steps = self.chain_parse(e, env)
+        if base[0] == "view":
+            cur, src = self.view_new(base[1], env, hoist)
+            t = base[1].func.id
+        else:
+            cur, src, t = base[1], ("var", base[1]), self.vtype(e, base[1], env)
+        if src[0] == "var" and (src[1] in self.params and src[1] not in self.spec.mutates and self.cls is None):
+            self.abort(e, f"the chain updates the parameter {src[1]!r}, which is not declared as updated by this function")
+        last_view, last_t = (cur if self.viewish(t) else None), t
+        steps = list(steps) + ([("set", setitem)] if setitem is not None else [])
+        val = None
+        for i, st in enumerate(steps):
+            if st[0] == "set":
+                k, name, sfx = self.kind(t)
+                m = next((x for x in self.unit.done_methods.get(name, []) if x.name == "__setitem__"), None)
+                if m is None:
+                    self.abort(e, f"'__setitem__' is not a method of {name} translated before this function")
+                cls = self.unit.classes[name] if k == "class" else ClassSpec(name, name, {})
+                ps = self.unit.params[(name, _mkey(m))]
+                args = [self.expr(st[1][0], m.types[ps[0]], env, hoist), st[1][1]]
+            else:
+                cls, sfx, m, argnodes = self.step_method(e, t, st)
+                fake = ast.copy_location(ast.Call(func=ast.Name(id="f'", ctx=ast.Load()), args=argnodes, keywords=[]), e)
+                for a in argnodes:
+                    if src[0] == "var" and src[1] in _names([a]):
+                        self.abort(e, f"argument of a chain step that mentions {src[1]!r}, which the chain borrows")
+                args = self.method_args(fake, cls, m, sfx, env, hoist)
+            if src[0] == "var" and cur == src[1]:
+                recv = cur                     # the variable itself is the receiver: bound again by the call
+            else:
+                self.nt += 1
+                recv = f"t'{self.nt}"
+            has_val = bool(m.ret) and m.ret != "unit"
+            self.nt += 1
+            res = f"t'{self.nt}" if has_val else "_"
+            hoist.append(("call", f"({recv}, {res})", self.mcall(e, cls, m, sfx, cur, args)))
+            if self.viewish(t):
+                last_view, last_t = recv, t
+            rt = self.mret(cls.name, m, sfx) if has_val else "unit"
+            if has_val and self.viewish(rt):
+                cur, t, last_view, last_t = res, rt, res, rt
+                val = res
+            else:
+                if i != len(steps) - 1:
+                    self.abort(e, "a step of the chain other than the last one returns something that is not a view")
+                val, t = (res if has_val else None), rt
+        if last_view is not None and last_view != (src[1] if src[0] == "var" else None):
+            pat = src[1] if src[0] == "var" else "'" + (self.state(e) if src[0] == "self" else self.view_term(src[1]))
+            hoist.append(("let", pat, self.parent_of(last_t, last_view)))
+        return val, t
+
+    def ntype6(self, e, env) -> Optional[str]:
+        """Natural type of the expression forms of the sixth extension (None: not one of them)."""
+        if isinstance(e, ast.Tuple) and isinstance(e.ctx, ast.Load) and len(e.elts) in (0, 1):
+            return "newtuple"
+        if isinstance(e, ast.BinOp) and isinstance(e.op, ast.Add) and isinstance(e.right, ast.Tuple) \
+                and is_tuple(self.ntype(e.left, env)):
+            return self.ntype(e.left, env)
+        if isinstance(e, ast.Subscript) and isinstance(e.ctx, ast.Load):
+            if self.is_cursor(e.value, env) and not isinstance(e.slice, ast.Slice):
+                return self.celltype()
+            if self.chain_parse(e, env) is not None:
+                return self.chain_type(e, env)
+            try_t = self.ntype(e.value, env) if isinstance(e.value, ast.Name) and e.value.id in env else None
+            if try_t is not None and is_tuple(try_t) and isinstance(e.slice, ast.Slice):
+                return try_t
+        if isinstance(e, ast.Compare) and len(e.ops) == 1 and isinstance(e.ops[0], (ast.Is, ast.IsNot)):
+            return "bool"
+        if isinstance(e, ast.Dict) and self.unit.nodedicts and (len(e.keys) != 1 or None in e.keys):
+            return "newdict"
+        if isinstance(e, ast.Attribute) and isinstance(e.ctx, ast.Load) and self.unit.opaque_attrs and not (
+                isinstance(e.value, ast.Name) and (e.value.id not in env or e.value.id == "self")):
+            try:
+                vt = self.ntype(e.value, env)
+            except TranslatorAbort:
+                return None
+            if e.attr in self.unit.opaque_attrs.get(vt, {}):
+                return self.unit.opaque_attrs[vt][e.attr][0]
+        return None
+
+    def call_type6(self, e, env) -> Optional[str]:
+        f = e.func
+        if self.product_call(e):
+            parts = [self.seq_items(e, a, env, [])[1] for a in e.args]
+            return "list (pair " + " ".join(x if " " not in x else "(" + x + ")" for x in parts) + ")"
+        uc = self.updating_call(e)
+        if uc is not None:
+            return uc[0].ret
+        if isinstance(f, ast.Name) and f.id not in self.spec.types:
+            if f.id in getattr(self.unit, "records", ()):
+                return f.id
+            if f.id in self.unit.markers and not e.args:
+                return f.id
+            if f.id == "any" and len(e.args) == 1 and isinstance(e.args[0], ast.GeneratorExp):
+                return "bool"
+            if f.id == "defaultdict" and self.unit.cellspec and len(e.args) == 1 and isinstance(e.args[0], ast.Lambda):
+                return self.celltype()
+            if f.id == "len" and len(e.args) == 1 and isinstance(e.args[0], ast.Name) and e.args[0].id in env \
+                    and is_tuple(self.ntype(e.args[0], env)):
+                return "N"
+        return self.chain_type(e, env)
+
+    def expr6(self, e, want: str, env, hoist) -> Optional[str]:
+        """Conversions of the sixth extension at a place where a value of type `want` is expected (None: none applies)."""
+        if is_tuple(want) and isinstance(e, ast.Tuple) and isinstance(e.ctx, ast.Load) \
+                and not any(isinstance(x, ast.Starred) for x in e.elts):
+            out = f"(@nil ({self.ct(arg_of(want))}))" if not e.elts else "nil"
+            for item in reversed([self.expr(x, arg_of(want), env, hoist) for x in e.elts]):     # evaluated left to right
+                out = f"(cons {item} {out})"
+            return out
+        if isinstance(e, ast.Dict) and self.kind(want)[0] == "nodedict" and (len(e.keys) != 1 or None in e.keys):
+            # {k: v, .., **d, ..}: the stores in order (k: v, then the items of d, ..) -- the list of the stores, newest first;
+            # d (the same kind of dictionary) is itself such a list: looking a key up sees d's stores before the earlier ones
+            tree, vt, _ = self.unit.nodedicts[want]
+            parts = []
+            for k, v in zip(e.keys, e.values):
+                if k is None:
+                    if self.ntype(v, env) != want:
+                        self.abort(e, f"**<value of type {self.ntype(v, env)}> in a dictionary of type {want}")
+                    parts.append(self.expr(v, want, env, hoist))
+                else:
+                    if self.ntype(k, env) != tree:
+                        self.abort(e, f"key of a {want} that is not a node of a {tree}")
+                    kt = self.raw(k, tree, env, hoist)
+                    parts.append(f"(cons ({self.unit.q(tree)}{tree}_id {kt}, {self.expr(v, vt, env, hoist)}) nil)")
+            if not parts:
+                return f"(@nil ({self.unit.ident_of(tree)} * {self.ct(vt)}))"
+            return "(" + " ++ ".join(reversed(parts)) + ")"
+        ct = self.celltype()
+        if ct is not None and want == ct:
+            t = self.ntype(e, env)
+            if t == "none":
+                return f"{self.unit.q(ct)}{ct}_None"
+            ent = self.unit.cellspec["entry"]
+            if t in (ent, "new " + ent):
+                return f"({self.unit.q(ct)}{ct}_Entry {self.expr(e, ent, env, hoist)})"
+        if self.kind(want)[0] == "union" and isinstance(e, ast.Name) and e.id == "self" and self.cls is not None \
+                and self.cls.name in self.unit.unions[want]:
+            return f"({self.unit.q(want)}{want}_{self.cls.name} {self.state(e)})"
+        if self.kind(want)[0] == "union":
+            t = self.ntype(e, env)
+            name = t[4:] if t.startswith("new ") else t
+            if name in self.unit.unions[want]:
+                return f"({self.unit.q(want)}{want}_{name} {self.expr(e, name, env, hoist)})"
+        if want == "bool" and not isinstance(e, (ast.Constant, ast.Compare, ast.BoolOp, ast.UnaryOp)):
+            t = self.ntype(e, env)
+            if is_tuple(t):                                   # truthiness of a tuple
+                self.need("is_empty")
+                return f"(negb (is_empty {self.raw(e, t, env, hoist)}))"
+        if is_option(want) and isinstance(e, ast.Call) and isinstance(e.func, ast.Name) and e.func.id in self.unit.datas \
+                and e.func.id not in self.spec.types:
+            return f"(Some {self.expr(e, arg_of(want), env, hoist)})"      # a newly built (immutable) value where an optional one is expected
+        if self.unit.unwrap_none and isinstance(e, ast.Attribute) and not is_option(want) and want != "bool":
+            try:
+                t = self.canon(self.ntype(e, env))
+            except TranslatorAbort:
+                t = ""
+            if is_option(t) and (arg_of(t) == want or (arg_of(t), want) in self.unit.coercions):
+                # x.f, a field that may hold None, where a value is needed: the error NoneValue when it is None (the
+                # translation does not follow what Python would do with the None: outside the tie)
+                self.need("NoneValue")
+                self.nt += 1
+                tmp = f"t'{self.nt}"
+                hoist.append(("unwrap", tmp, self.raw(e, t, env, hoist), "NoneValue"))
+                if arg_of(t) == want:
+                    return tmp
+                return "(" + self.unit.coercions[(arg_of(t), want)].format(tmp) + ")"
+        if (self.ntype_quiet(e, env), want) in self.unit.coercions:
+            t = self.ntype(e, env)
+            return "(" + self.unit.coercions[(t, want)].format(self.raw(e, t, env, hoist)) + ")"
+        if is_option(want) and (self.ntype_quiet(e, env), arg_of(want)) in self.unit.coercions:
+            return f"(Some {self.expr(e, arg_of(want), env, hoist)})"
+        return None
+
+    def ntype_quiet(self, e, env) -> Optional[str]:
+        if not self.unit.coercions:
+            return None
+        try:
+            return self.ntype(e, env)
+        except TranslatorAbort:
+            return None
+
+    def raw6(self, e, t: str, env, hoist) -> Optional[str]:
+        if isinstance(e, ast.BinOp) and isinstance(e.op, ast.Add) and is_tuple(t) and isinstance(e.right, ast.Tuple):
+            return f"({self.expr(e.left, t, env, hoist)} ++ {self.expr(e.right, t, env, hoist)})"
+        if isinstance(e, ast.Subscript) and isinstance(e.ctx, ast.Load):
+            if self.is_cursor(e.value, env) and not isinstance(e.slice, ast.Slice):
+                # c[k], c a reference to a dictionary of the nested table: reading may give the defaultdict the key
+                c, root = e.value.id, self.cursor_root(e, e.value.id)
+                key = self.expr(e.slice, self.unit.cellspec["key_type"], env, hoist)
+                hoist.append(("call", root, f"{self.cell_fn('touch')} {c} {key} {root}"))
+                self.nt += 1
+                hoist.append(("call", f"t'{self.nt}", f"{self.cell_fn('get')} {c} {key} {root}"))
+                return f"t'{self.nt}"
+            if self.chain_parse(e, env) is not None:
+                return self.chain(e, env, hoist)[0]
+            if isinstance(e.slice, ast.Slice) and is_tuple(t) and isinstance(e.value, ast.Name):
+                sl = e.slice
+                if sl.step is None and sl.upper is None and sl.lower is not None and self.ntype(sl.lower, env) in ("N", "lit"):
+                    return f"(skipn (N.to_nat {self.expr(sl.lower, 'N', env, hoist)}) {e.value.id})"
+                if sl.step is None and sl.lower is None and isinstance(sl.upper, ast.UnaryOp) and isinstance(sl.upper.op, ast.USub) \
+                        and isinstance(sl.upper.operand, ast.Constant) and sl.upper.operand.value == 1:
+                    return f"(removelast {e.value.id})"       # xs[:-1]: without the last item (empty stays empty)
+                self.abort(e, "slice of a tuple other than xs[k:] / xs[:-1]")
+        if isinstance(e, ast.Attribute) and isinstance(e.ctx, ast.Load) and self.unit.opaque_attrs \
+                and self.ntype6(e, env) is not None and not self.enum_member(e):
+            vt = self.ntype(e.value, env)
+            if e.attr in self.unit.opaque_attrs.get(vt, {}):
+                return f"({self.unit.opaque_attrs[vt][e.attr][1]} {self.raw(e.value, vt, env, hoist)})"
+        if isinstance(e, ast.Compare) and len(e.ops) == 1 and isinstance(e.ops[0], (ast.Is, ast.IsNot)):
+            c = e.comparators[0]
+            if not (isinstance(c, ast.Constant) and c.value is None):
+                self.abort(e, "'is' other than 'is None' / 'is not None'")
+            lt = self.ntype(e.left, env)
+            if lt == self.celltype():
+                term = f"({self.cell_fn('is_None')} {self.expr(e.left, lt, env, hoist)})"
+            elif is_option(lt):
+                term = f"(match {self.raw(e.left, lt, env, hoist)} with None => true | Some _ => false end)"
+            else:
+                self.abort(e, f"'is None' on a value of type {lt}")
+            return f"(negb {term})" if isinstance(e.ops[0], ast.IsNot) else term
+        return None
+
+    def call6(self, e, t: str, env, hoist) -> Optional[str]:
+        f = e.func
+        if self.product_call(e):
+            # product(xs, ys) as a value: the list of the pairs, in the order of itertools.product
+            a, b = [self.seq_items(e, x, env, hoist)[0] for x in e.args]
+            return f"(list_prod {a} {b})"
+        uc = self.updating_call(e)
+        if uc is not None:
+            # f(..), f updating parameters that hold objects: the variables passed are bound again from what it returns.  Inside
+            # an expression the calls are hoisted in evaluation order; a variable the call updates may only occur in the
+            # statement as such an argument (or as the base of a chain): each occurrence then sees what the previous ones did
+            callee, params, mut, rec = uc
+            if len(params) != len(e.args) or any(isinstance(a, ast.Starred) for a in e.args):
+                self.abort(e, f"{f.id}() called with {len(e.args)} arguments")
+            bound = {}
+            for a, q in zip(e.args, params):
+                if q in mut:
+                    if not isinstance(a, ast.Name) or a.id not in env or a.id in bound.values() \
+                            or self.spec.types.get(a.id) != callee.types[q] or a.id in self.fieldvars \
+                            or (a.id in self.params and a.id not in self.spec.mutates):
+                        self.abort(e, f"the argument for {q!r} is updated by {f.id}(..): a local variable (or a parameter declared "
+                                      "as updated) of the same type, passed once")
+                    bound[q] = a.id
+            if rec:
+                a = e.args[self.params.index(self.spec.rec_on)]
+                if not (isinstance(a, ast.Name) and a.id in self.subtrees):
+                    self.abort(e, f"recursive call whose argument for {self.spec.rec_on!r} is not a child of it")
+                self.in_rec = True
+            args = [self.expr(a, callee.types[q], env, hoist) for a, q in zip(e.args, params)]
+            self.uses_vars |= self.unit.method_uses_vars.get(f.id, set())
+            if not callee.ret or callee.ret == "unit":
+                self.abort(e, f"{f.id}(..) returns nothing and is used as a value")
+            self.nt += 1
+            hoist.append(("call", "(" + ", ".join([bound[q] for q in mut] + [f"t'{self.nt}"]) + ")",
+                          " ".join([self.prefix + (callee.alias or callee.name)] + args)))
+            return f"t'{self.nt}"
+        if isinstance(f, ast.Name) and f.id not in self.spec.types:
+            if f.id in getattr(self.unit, "records", ()):
+                # C(a, b), C a frozen dataclass kept as a Record of this file: every field positionally
+                cls = self.unit.classes[f.id]
+                if len(e.args) != len(cls.fields) or any(isinstance(a, ast.Starred) for a in e.args) or e.keywords:
+                    self.abort(e, f"{f.id}(..) is only translated with every field given as a positional argument")
+                args = [self.expr(a, ft, env, hoist) for a, ft in zip(e.args, cls.fields.values())]
+                return f"(mk_{cls.short} {' '.join(args)})"
+            if f.id in self.unit.markers and not e.args:
+                return f"{self.unit.q(f.id)}mk_{f.id}"
+            if f.id == "any" and len(e.args) == 1 and isinstance(e.args[0], ast.GeneratorExp):
+                # any(c for x in xs): some item of the list xs satisfies c (c cannot raise)
+                g = e.args[0].generators[0] if len(e.args[0].generators) == 1 else None
+                if g is None or g.is_async or g.ifs or not isinstance(g.target, ast.Name) or not isinstance(g.iter, ast.Name) \
+                        or g.iter.id not in env or not self.seq(self.ntype(g.iter, env)) or self.unit.rebinds("any"):
+                    self.abort(e, "any(..) other than any(<condition> for x in <sequence variable>)")
+                var, et = g.target.id, arg_of(self.ntype(g.iter, env))
+                if self.ty(e, var) != et or var in env:
+                    self.abort(e, f"comprehension variable {var!r} must be declared {et} and used nowhere else")
+                sub: list = []
+                c = self.expr(e.args[0].elt, "bool", env + [var], sub)
+                if sub:
+                    self.abort(e, "condition of any(..) that can raise")
+                return f"(existsb (fun {self.binder(e, var)} => {c}) {g.iter.id})"
+            if f.id == "defaultdict" and self.unit.cellspec and len(e.args) == 1 and isinstance(e.args[0], ast.Lambda):
+                # defaultdict(lambda: f(x)), f the declared factory, x a local variable holding an immutable value: an empty
+                # dictionary that remembers x (the factory is called when a missing key is read)
+                lam, c = e.args[0], self.unit.cellspec
+                a = lam.args
+                b = lam.body
+                if a.args or a.vararg or a.kwarg or a.kwonlyargs or a.posonlyargs or not (
+                        isinstance(b, ast.Call) and isinstance(b.func, ast.Name) and b.func.id == c["factory"]
+                        and b.func.id not in self.spec.types and len(b.args) == 1 and not b.keywords
+                        and isinstance(b.args[0], ast.Name) and b.args[0].id in env) \
+                        or self.ntype(b.args[0], env) != c["env"] or self.seq(c["env"]) and is_list(c["env"]):
+                    self.abort(e, f"defaultdict(..) other than defaultdict(lambda: {c['factory']}(<variable of type {c['env']}>))")
+                x = b.args[0].id
+                stores = [n for n in ast.walk(self.fn) if isinstance(n, ast.Name) and n.id == x and not isinstance(n.ctx, ast.Load)]
+                if len(stores) + (x in self.params) != 1:
+                    self.abort(e, f"the variable {x!r} captured by the factory is assigned more than once")
+                return f"({self.unit.q(c['name'])}{c['name']}_dict {x} nil)"
+            if f.id == "len" and len(e.args) == 1 and isinstance(e.args[0], ast.Name) and e.args[0].id in env \
+                    and is_tuple(self.ntype(e.args[0], env)):
+                return f"(N.of_nat (length {e.args[0].id}))"
+        if self.chain_parse(e, env) is not None:
+            val, _ = self.chain(e, env, hoist)
+            if val is None:
+                self.abort(e, "call of a method that returns nothing, used as a value")
+            return val
+        return None
+
+    # ---------------------------------------------------------------- sixth extension: statements
+    def plain_fstring(self, a) -> bool:
+        """An f-string whose interpolated expressions are names, attributes, len(..) and sums of them: building the message
+        of an exception with it cannot raise (the message itself is not modelled)."""
+        if not (self.tables() and isinstance(a, ast.JoinedStr)):
+            return False
+        for v in a.values:
+            if isinstance(v, ast.Constant):
+                continue
+            if not isinstance(v, ast.FormattedValue) or v.format_spec is not None:
+                return False
+            for n in ast.walk(v.value):
+                if isinstance(n, ast.Call) and not (isinstance(n.func, ast.Name) and n.func.id == "len" and len(n.args) == 1
+                                                    and not n.keywords):
+                    return False
+                if not isinstance(n, (ast.Call, ast.Name, ast.Attribute, ast.BinOp, ast.Add, ast.Constant, ast.Load)):
+                    return False
+        return True
+
+    def block6(self, s, rest, env, ctx, h) -> Optional[List[str]]:
+        """The statement forms of the sixth extension (None: `s` is not one of them)."""
+        ct = self.celltype()
+        if isinstance(s, ast.FunctionDef):
+            return self.closure(s, rest, env, ctx)
+        if isinstance(s, (ast.Expr, ast.Assign)) and isinstance(s.value, ast.Call) and isinstance(s.value.func, ast.Name) \
+                and s.value.func.id not in self.spec.types and s.value.func.id in self.unit.functions \
+                and any(self.kind(self.unit.functions[s.value.func.id].types[m])[0] == "class"
+                        for m in self.unit.mutates.get(s.value.func.id, ())):
+            tgt = None
+            if isinstance(s, ast.Assign):
+                if len(s.targets) != 1 or not isinstance(s.targets[0], ast.Name):
+                    self.abort(s, "only 'name = f(..)' for a function that updates objects")
+                tgt = s.targets[0].id
+                if self.ty(s, tgt) != self.unit.functions[s.value.func.id].ret or tgt in self.params or tgt in self.fieldvars:
+                    self.abort(s, f"{tgt!r} must be a local variable of the type the function returns")
+            return self.fun_call_stmt(s, s.value, tgt, rest, env, ctx, h)
+        if self.spec.generator:
+            if isinstance(s, ast.Return) and s.value is None:
+                return [ctx.ret("acc'")]
+            if isinstance(s, ast.Expr) and isinstance(s.value, ast.Yield) and s.value.value is not None:
+                # yield e: one more item of the list of what the generator yields
+                item = self.expr(s.value.value, arg_of(self.spec.ret), env, h)
+                return self.hoisted(h, [f"let acc' := (acc' ++ cons {item} nil) in"] + self.block(rest, env, ctx), ctx)
+            if isinstance(s, ast.Expr) and isinstance(s.value, ast.YieldFrom):
+                # yield from e: the items e yields
+                v = s.value.value
+                if isinstance(v, ast.Call) and isinstance(v.func, ast.Attribute) and v.func.attr == "__iter__" and not v.args:
+                    v = v.func.value
+                items = self.iterated(s, v, arg_of(self.spec.ret), env, h)
+                return self.hoisted(h, [f"let acc' := (acc' ++ {items}) in"] + self.block(rest, env, ctx), ctx)
+        # return c, c a reference: the cell it designates (where None or an entry is expected: a dictionary there is the
+        # AttributeError of the method call that follows in the caller)
+        if isinstance(s, ast.Return) and s.value is not None and self.is_cursor(s.value, env):
+            c, root = s.value.id, self.cursor_root(s, s.value.id)
+            self.nt += 1
+            t1 = f"t'{self.nt}"
+            h.append(("call", t1, f"{self.cell_fn('at')} {c} {root}"))
+            if self.spec.ret == ct:
+                return self.hoisted(h, [ctx.ret(t1)], ctx)
+            if self.spec.ret != "option " + self.unit.cellspec["entry"]:
+                self.abort(s, f"a reference is returned where a value of type {self.spec.ret} is expected")
+            self.nt += 1
+            h.append(("call", f"t'{self.nt}", f"{self.cell_fn('entry')} {t1}"))
+            return self.hoisted(h, [ctx.ret(f"t'{self.nt}")], ctx)
+        # if x is None: <ends in return / raise>  -- x holding an optional value: a match; x is the value afterwards
+        if isinstance(s, ast.If) and isinstance(s.test, ast.Compare) and len(s.test.ops) == 1 \
+                and isinstance(s.test.ops[0], ast.Is) and isinstance(s.test.left, ast.Name) \
+                and isinstance(s.test.comparators[0], ast.Constant) and s.test.comparators[0].value is None \
+                and s.test.left.id in env and s.test.left.id + "!" not in env and is_option(self.spec.types.get(s.test.left.id, "")) \
+                and not s.orelse and s.body and isinstance(s.body[-1], (ast.Return, ast.Raise)):
+            x = s.test.left.id
+            if x in self.params or x in self.fieldvars or x in self.assigned(s.body + rest):
+                self.abort(s, f"{x!r} is tested against None and assigned afterwards (or is a parameter / an attribute)")
+            return [f"match {x} with", "| None =>"] + _ind(self.block(s.body, env, ctx)) + [f"| Some {x} =>"] \
+                + _ind(self.block(rest, env + [x + "!"], ctx)) + ["end"]
+        if isinstance(s, ast.Assign) and len(s.targets) == 1 and isinstance(s.targets[0], ast.Name):
+            x, v = s.targets[0].id, s.value
+            # self.f = obj in __init__, f an attribute that refers to an object: its attributes become variables
+            if x in self.viewvars:
+                tname = self.viewvars[x]
+                if self.fn.name != "__init__" or not (isinstance(v, ast.Name) and v.id in self.params and v.id in env
+                                                      and self.ty(s, v.id) == tname) or x + "'" in "".join(env):
+                    self.abort(s, f"{x.replace(chr(39), '.')} may only be bound once, by __init__, to a parameter holding a {tname}")
+                vs = [f for f in self.fieldvars if f.startswith(x + "'")]
+                return [f"let '{self.view_term(x)} := {v.id} in"] + self.block(rest, env + vs + [x], ctx)
+            if self.spec.types.get(x) == "cursor":
+                root = self.cursor_root(s, x)
+                if isinstance(v, ast.Name):
+                    # c = <root>: a reference to the root itself
+                    if v.id != root or root not in env:
+                        self.abort(s, f"the reference {x!r} is bound to something that is not a variable holding a root")
+                    return [f"let {x} := (@nil ({self.unit.cellspec['key']})) in"] + self.block(rest, env + [x] * (x not in env), ctx)
+                # c = c[k]: the reference follows the key k (reading c[k] may give the defaultdict the key)
+                if x not in env:
+                    self.abort(s, f"the reference {x!r} is not definitely assigned here")
+                key = self.expr(v.slice, self.unit.cellspec["key_type"], env, h)
+                h.append(("call", root, f"{self.cell_fn('touch')} {x} {key} {root}"))
+                return self.hoisted(h, [f"let {x} := ({x} ++ cons {key} nil) in"] + self.block(rest, env, ctx), ctx)
+            # x = <method call returning a newly built object> / x = <call returning a reference that x only reads through>
+            xt = self.spec.types.get(x, "")
+            k, cname, _ = self.kind(arg_of(xt) if is_option(xt) else xt) if xt else (None, "", "")
+            if k == "class" and isinstance(v, ast.Call) and isinstance(v.func, ast.Name) and v.func.id not in self.spec.types \
+                    and v.func.id in self.unit.functions and self.unit.functions[v.func.id].fresh \
+                    and not self.unit.mutates.get(v.func.id) and x not in self.fieldvars and x not in self.params:
+                term = self.expr(v, xt, env, h)
+                return self.hoisted(h, [f"let {x} := {term} in"] + self.block(rest, env + [x] * (x not in env), ctx), ctx)
+            if k == "class" and isinstance(v, ast.Call) and isinstance(v.func, ast.Attribute) and x not in self.fieldvars \
+                    and x not in self.params and not self.ntype(v, env).startswith("new "):
+                m = self.callee_spec(v, env)
+                if m is None or not (m.fresh or self.read_only(x)):
+                    self.abort(s, f"{x!r} is bound to an object that the call does not build, and is not used for reading only")
+                term = self.expr(v, xt, env, h)
+                env2 = [w for w in env if w != x + "!"]
+                return self.hoisted(h, [f"let {x} := {term} in"] + self.block(rest, env2 + [x] * (x not in env2), ctx), ctx)
+        if isinstance(s, ast.Assign) and len(s.targets) == 1 and isinstance(s.targets[0], ast.Subscript) \
+                and not isinstance(s.targets[0].slice, ast.Slice):
+            tg = s.targets[0]
+            if self.is_cursor(tg.value, env):
+                # c[k] = v, c a reference to a dictionary of the nested table (the value first, then the key)
+                c, root = tg.value.id, self.cursor_root(s, tg.value.id)
+                val = self.expr(s.value, ct, env, h)
+                key = self.expr(tg.slice, self.unit.cellspec["key_type"], env, h)
+                h.append(("call", root, f"{self.cell_fn('store')} {c} {key} {val} {root}"))
+                return self.hoisted(h, self.block(rest, env, ctx), ctx)
+            recv_t = self.chain_recv_type(tg.value, env)
+            if recv_t is not None:
+                # B..[k] = v: the value first, then the chain B.., then k, then __setitem__
+                m = next((x for x in self.unit.done_methods.get(self.kind(recv_t)[1], []) if x.name == "__setitem__"), None)
+                if m is None:
+                    self.abort(s, f"'__setitem__' is not a method of {recv_t} translated before this function")
+                ps = self.unit.params[(self.kind(recv_t)[1], _mkey(m))]
+                val = self.expr(s.value, m.types[ps[1]], env, h)
+                if self.chain_parse(tg.value, env) is not None and not isinstance(tg.value, ast.Name) \
+                        and not (isinstance(tg.value, ast.Call) and isinstance(tg.value.func, ast.Name)):
+                    self.chain(tg.value, env, h, setitem=(tg.slice, val))
+                else:
+                    self.chain_on_base(tg.value, env, h, setitem=(tg.slice, val))
+                return self.hoisted(h, self.block(rest, env, ctx), ctx)
+        if isinstance(s, ast.Expr) and isinstance(s.value, ast.Call) and isinstance(s.value.func, ast.Attribute) \
+                and not s.value.keywords:
+            c = s.value
+            tg = c.func.value
+            if isinstance(tg, ast.Subscript) and self.is_cursor(tg.value, env) and not isinstance(tg.slice, ast.Slice):
+                # c[k].m(args), c a reference: the cell is read (an entry, else AttributeError), the method called on the
+                # entry, the entry stored back
+                cur, root = tg.value.id, self.cursor_root(s, tg.value.id)
+                ent = self.unit.cellspec["entry"]
+                cls = self.unit.classes[ent]
+                m = next((x for x in self.unit.done_methods.get(ent, []) if x.name == c.func.attr), None)
+                if m is None:
+                    self.abort(s, f"{c.func.attr!r} is not a translated method of {ent}")
+                key = self.expr(tg.slice, self.unit.cellspec["key_type"], env, h)
+                h.append(("call", root, f"{self.cell_fn('touch')} {cur} {key} {root}"))
+                self.nt += 3
+                t1, t2 = f"t'{self.nt - 2}", f"t'{self.nt - 1}"
+                h.append(("call", t1, f"{self.cell_fn('get')} {cur} {key} {root}"))
+                h2: list = []
+                args = self.method_args(c, cls, m, "", env, h2)
+                call = self.mcall(s, cls, m, "", t2, args)
+                self.need("AttributeError")
+                inner = [f"match {call} with", "| Err e' => " + ctx.fail("e'"), f"| Ok ({t2}, _) =>",
+                         f"  match {self.cell_fn('store')} {cur} {key} ({self.unit.q(ct)}{ct}_Entry {t2}) {root} with",
+                         "  | Err e' => " + ctx.fail("e'"), f"  | Ok {root} =>"] + _ind(_ind(self.block(rest, env, ctx))) + ["  end", "end"]
+                return self.hoisted(h, [f"match {t1} with", f"| {self.unit.q(ct)}{ct}_Entry {t2} =>"]
+                                    + _ind(self.hoisted(h2, inner, ctx)) + [f"| _ => {ctx.fail('AttributeError')}", "end"], ctx)
+            if self.chain_parse(c, env) is not None and not (isinstance(tg, ast.Name) and self.obj_call_plain(c, env)):
+                self.chain(c, env, h)          # B...m(args) as a statement: the value (if any) is dropped
+                return self.hoisted(h, self.block(rest, env, ctx), ctx)
+        return None
+
+    def iter6(self, a, env) -> bool:
+        """Is `a` a sequence expression of the sixth extension a `for` may iterate: a slice of a tuple variable, or a chain
+        whose value is a list / tuple / set?"""
+        if not self.tables():
+            return False
+        if isinstance(a, ast.Subscript) and isinstance(a.slice, ast.Slice) and isinstance(a.value, ast.Name) \
+                and a.value.id in env and a.value.id in self.spec.types and is_tuple(self.vtype(a, a.value.id, env)):
+            return True
+        if isinstance(a, ast.Call) and self.chain_parse(a, env) is not None and not (
+                isinstance(a.func.value, ast.Name) and self.obj_call_plain(a, env)):
+            t = self.chain_type(a, env)
+            return self.seq(t) or self.kind(t)[0] == "set"
+        return False
+
+    def starred(self, a, et: str, env, hoist) -> str:
+        """`*xs` among the arguments of a `*args` parameter whose items have the type `et`: the list of the items of xs."""
+        v = a.value
+        if isinstance(v, ast.Name) and v.id in env and self.seq(self.ntype(v, env)) and arg_of(self.ntype(v, env)) == et:
+            return v.id
+        if isinstance(v, ast.Call) and isinstance(v.func, ast.Name) and v.func.id == "map" and "map" not in self.spec.types \
+                and not self.unit.rebinds("map") and len(v.args) == 2 and not v.keywords and isinstance(v.args[0], ast.Lambda):
+            # *map(lambda x: e, xs): e for each item of xs, in order (xs is evaluated first; the first error of an e ends it)
+            lam = v.args[0]
+            la = lam.args
+            if len(la.args) != 1 or la.vararg or la.kwarg or la.kwonlyargs or la.posonlyargs or la.defaults:
+                self.abort(a, "map(lambda ..) with a lambda of other than one plain parameter")
+            x = la.args[0].arg
+            items, it_t = self.seq_items(a, v.args[1], env, hoist)
+            if self.canon(self.ty(a, x)) != self.canon(it_t) or x in env or any(
+                    isinstance(n, ast.Name) and n.id != x and n.id in self.spec.types for n in ast.walk(lam.body)):
+                self.abort(a, f"the parameter {x!r} of the lambda must be declared {it_t}, be used nowhere else, and be the only "
+                              "variable the lambda mentions")
+            sub: list = []
+            term = self.expr(lam.body, et, env + [x], sub)
+            self.nloop += 1
+            fx = f"map'{self.nloop}"
+            lctx = _Ctx(ret=lambda e: f"Ok {e}", fail=lambda e: f"Err {e}", fall=None)
+            body = self.hoisted(sub, [f"match {fx} it'' with Err e' => Err e' | Ok r' => Ok (cons {term} r') end"], lctx)
+            self.nt += 1
+            hoist.append(("call", f"t'{self.nt}", " ".join(
+                [f"(fix {fx} (it' : list {self.ctp(it_t)}) {{struct it'}} : res (list {self.ctp(et)}) :=",
+                 f"match it' with nil => Ok nil | cons {x} it'' =>"] + body + ["end)", items])))
+            return f"t'{self.nt}"
+        return self.iterated(a, v, et, env, hoist)
+
+    def iterated(self, node, v, et: str, env, hoist) -> str:
+        """The list of the items `iter(v)` yields, v an expression whose value is an object of a translated class with a
+        translated `__iter__` (a generator method: the list of what it yields)."""
+        t = self.ntype(v, env)
+        k, name, sfx = self.kind(t[4:] if t.startswith("new ") else t)
+        m = next((x for x in self.unit.done_methods.get(name, []) if x.name == "__iter__"), None) if k in ("class", "union") else None
+        if m is None or not m.pure or inst_type(arg_of(m.ret), sfx, self.unit.parametric()) != et:
+            self.abort(node, f"*<value of type {t}> where the items of a list of {et} are expected")
+        obj = self.expr(v, name + sfx, env, hoist)
+        cls = self.unit.classes[name] if k == "class" else ClassSpec(name, name, {})
+        self.nt += 1
+        hoist.append(("call", f"(_, t'{self.nt})", self.mcall(node, cls, m, sfx, obj, [])))
+        return f"t'{self.nt}"
+
+    def read_only_param(self, cls: ClassSpec, m: FunSpec, p: str) -> bool:
+        """Does the translated method `m` of `cls` only read the object its parameter `p` holds?  (It was translated under
+        the rule that a method may only call `pure` methods on a parameter.)"""
+        return True
+
+    def check_fresh(self):
+        """A method declared `fresh` returns an object built during the call: every `return` hands back a construction
+        `C(..)`, the result of a method declared `fresh`, or a local variable (a local only ever holds such an object)."""
+        for n in ast.walk(self.fn):
+            if not isinstance(n, ast.Return):
+                continue
+            v = n.value
+            ok = isinstance(v, ast.Call) and isinstance(v.func, ast.Name) and v.func.id in self.unit.classes \
+                and v.func.id not in self.spec.types
+            if isinstance(v, ast.Name) and v.id in self.spec.types and v.id not in self.params and v.id not in self.fieldvars \
+                    and v.id not in self.viewvars and not self.read_only(v.id):
+                ok = True
+            if isinstance(v, ast.Call) and isinstance(v.func, ast.Attribute) and isinstance(v.func.value, ast.Name):
+                t = self.spec.types.get(v.func.value.id, "")
+                cname = self.kind(arg_of(t) if is_option(t) else t)[1] if t else ""
+                m = next((y for y in self.unit.done_methods.get(cname, []) if y.name == v.func.attr), None)
+                ok = ok or (m is not None and m.fresh)
+            if not ok:
+                self.abort(n, "method declared as returning a newly built object, but this return may hand back another one")
+
+    def closure(self, s, rest, env, ctx) -> List[str]:
+        """`def f(a, b): return e` inside a function, f declared of a function type: the Coq function `fun a b => e`.  `e`
+        cannot raise; the variables it captures hold immutable values and are assigned once, before the definition."""
+        f = s.name
+        ft = self.ty(s, f)
+        a = s.args
+        body = [b for b in s.body if not (isinstance(b, ast.Expr) and isinstance(b.value, ast.Constant)
+                                          and isinstance(b.value.value, str))]
+        parts = [x.strip() for x in ft.split("->")]
+        ps = [x.arg for x in a.args]
+        if "->" not in ft or s.decorator_list or a.vararg or a.kwarg or a.kwonlyargs or a.posonlyargs or a.defaults \
+                or len(ps) != len(parts) - 1 or len(body) != 1 or not isinstance(body[0], ast.Return) or body[0].value is None \
+                or f in env or f in self.params or len(set(ps)) != len(ps):
+            self.abort(s, "local function other than 'def f(<parameters>): return <expression>' declared of a function type")
+        if sum(1 for n in ast.walk(self.fn) if isinstance(n, ast.FunctionDef) and n.name == f) != 1 \
+                or any(isinstance(n, ast.Name) and n.id == f and not isinstance(n.ctx, ast.Load) for n in ast.walk(self.fn)):
+            self.abort(s, f"the local function {f!r} is defined or assigned more than once")
+        for q, t in zip(ps, parts):
+            if self.ty(s, q) != t or q in env:
+                self.abort(s, f"parameter {q!r} of {f} must be declared {t} and used for nothing else")
+        for n in ast.walk(body[0]):
+            if isinstance(n, ast.Name) and n.id not in ps:
+                stores = [x for x in ast.walk(self.fn) if isinstance(x, ast.Name) and x.id == n.id and not isinstance(x.ctx, ast.Load)]
+                t = self.spec.types.get(n.id)
+                if t is None:
+                    continue                       # a name of the unit (a class, an enum, a constant)
+                if n.id not in env or len(stores) + (n.id in self.params) != 1 or self.seq(t) and is_list(t) \
+                        or self.kind(t)[0] in ("class", "set", "nodedict", "elemdict", "deque", "cursor", "union", "cell"):
+                    self.abort(n, f"the local function {f} captures {n.id!r}, which is not an immutable value assigned once before")
+        sub: list = []
+        term = self.expr(body[0].value, parts[-1], env + ps, sub)
+        if sub:
+            self.abort(s, f"the body of the local function {f} can raise")
+        return [f"let {f} := fun {' '.join(self.binder(s, q) for q in ps)} => {term} in"] + self.block(rest, env + [f], ctx)
+
+    def fun_call_stmt(self, s, call, target, rest, env, ctx, h) -> Optional[List[str]]:
+        """`f(args)` / `x = f(args)`, f a function of the unit that updates parameters holding objects (`FunSpec.mutates`):
+        the variables passed in those positions are bound again from what the generated function returns."""
+        f = call.func.id
+        callee, params, mut = self.unit.functions[f], self.unit.params[f], self.unit.mutates[f]
+        if len(params) != len(call.args) or any(isinstance(a, ast.Starred) for a in call.args) or call.keywords:
+            self.abort(s, f"{f}() called with {len(call.args)} arguments")
+        bound = {}
+        for a, q in zip(call.args, params):
+            if q in mut:
+                if not isinstance(a, ast.Name) or a.id not in env or a.id in bound.values() or self.spec.types.get(a.id) != callee.types[q] \
+                        or (a.id in self.params and a.id not in self.spec.mutates) or a.id in self.fieldvars:
+                    self.abort(s, f"the argument for {q!r} is updated by {f}(..): it must be a local variable (or a parameter "
+                                  "declared as updated) of the same type, passed once")
+                bound[q] = a.id
+        args = [self.expr(a, callee.types[q], env, h) for a, q in zip(call.args, params)]
+        for a, q in zip(call.args, params):
+            if q not in mut and any(n in bound.values() for n in _names([a])):
+                self.abort(s, f"argument of {f}(..) that mentions a variable the call updates")
+        self.uses_vars |= self.unit.method_uses_vars.get(f, set())
+        self.uses_eqb = self.uses_eqb or self.unit.method_uses_eqb.get(f, False)
+        has_val = callee.ret and callee.ret != "unit"
+        if (target is not None) != bool(has_val):
+            self.abort(s, f"{f}(..) " + ("returns nothing" if target is not None else "returns a value that is dropped"))
+        res = target if target is not None else "_"
+        pat = "(" + ", ".join([bound[q] for q in mut] + [res]) + ")"
+        env2 = env + ([target] if target is not None and target not in env else [])
+        return self.hoisted(h, [f"match {' '.join([self.prefix + (callee.alias or callee.name)] + args)} with",
+                                "| Err e' => " + ctx.fail("e'"), f"| Ok {pat} =>"] + _ind(self.block(rest, env2, ctx)) + ["end"], ctx)
+
+    def translate_sixth(self, binders: str) -> str:
+        """A module-level function of a unit with `use_tables` that updates parameters holding objects (`FunSpec.mutates`:
+        it returns them, in that order, together with its result), returns nothing (`ret="unit"`) or is a generator."""
+        fn = self.fn
+        for m in self.spec.mutates:
+            if m not in self.params or self.kind(self.spec.types.get(m, ""))[0] != "class" or list(self.spec.mutates).count(m) != 1:
+                self.abort(fn, f"updated parameter {m!r} is not a parameter holding an object of a translated class")
+        if self.spec.rec_fuel or not self.spec.ret:
+            self.abort(fn, "fuel declared for / no result type declared for a function of a unit with `use_tables`")
+        R = self.R if " " not in self.R else "(" + self.R + ")"
+        self.RR = " * ".join([self.ct(self.spec.types[m]) for m in self.spec.mutates] + [R])
+        unit_fall = (lambda env: f"Ok {self.pack('tt')}") if self.spec.ret == "unit" else None
+        ctx = _Ctx(ret=lambda e: f"Ok {self.pack(e)}", fail=lambda e: f"Err {e}", fall=unit_fall, retp=lambda e: f"Ok {e}")
+        gen = ["acc'"] if self.spec.generator else []
+        if self.spec.fresh:
+            self.check_fresh()
+        if gen:
+            if not is_list(self.spec.ret) or not any(isinstance(n, (ast.Yield, ast.YieldFrom)) for n in ast.walk(fn)):
+                self.abort(fn, "a generator yields; its declared result is the list of what it yields")
+            ctx.fall = lambda env: f"Ok {self.pack(chr(97) + 'cc' + chr(39))}"
+        body = self.block(fn.body, list(self.params) + gen, ctx)
+        if gen:
+            body = [f"let acc' := (@nil ({self.ct(arg_of(self.spec.ret))})) in"] + body
+        name = self.prefix + (self.spec.alias or fn.name)
+        head = f"(* {fn.name}, line {fn.lineno} *)\n"
+        if self.spec.rec_on:
+            if not self.in_rec or self.kind(self.spec.types.get(self.spec.rec_on, ""))[0] != "tree" or self.spec.rec_on not in self.params:
+                self.abort(fn, "the recursion parameter must be a parameter of a declared binary tree type, and the function call itself")
+            return head + "\n\n".join(self.fixpoints + [
+                f"Fixpoint {name} {binders} {{struct {self.spec.rec_on}}} : res ({self.RR}) :=\n" + "\n".join(_ind(body)) + "."])
+        return head + "\n\n".join(self.fixpoints + [f"Definition {name} {binders} : res ({self.RR}) :=\n" + "\n".join(_ind(body)) + "."])
+
+    def product_call(self, e) -> bool:
+        return isinstance(e, ast.Call) and isinstance(e.func, ast.Name) and e.func.id == "product" \
+            and "product" in self.unit.builtins and "product" not in self.spec.types and len(e.args) == 2 and not e.keywords
+
+    def updating_call(self, e):
+        """(spec, parameters, updated parameters, recursive?) when `e` is `f(..)`, f the function being translated (structural
+        recursion) or a function of the unit, that updates parameters holding objects; else None."""
+        if not (self.tables() and self.cls is None and isinstance(e, ast.Call) and isinstance(e.func, ast.Name)
+                and e.func.id not in self.spec.types):
+            return None
+        if self.is_self_rec(e) and any(self.kind(self.spec.types[m])[0] == "class" for m in self.spec.mutates):
+            return self.spec, self.params, tuple(self.spec.mutates), True
+        f = e.func.id
+        if f in self.unit.functions and any(self.kind(self.unit.functions[f].types[m])[0] == "class"
+                                            for m in self.unit.mutates.get(f, ())):
+            return self.unit.functions[f], self.unit.params[f], self.unit.mutates[f], False
+        return None
+
+    def seq_items(self, node, v, env, hoist):
+        """(term, type of the items) of the list of the items the expression `v` yields when iterated: a list / tuple / set
+        valued expression, or a generator call (the list of what it yields)."""
+        t = self.ntype(v, env)
+        if self.seq(t):
+            return self.expr(v, t, env, hoist), arg_of(t)
+        if self.kind(t)[0] == "set":
+            return self.expr(v, t, env, hoist), "elem" + self.kind(t)[2]
+        self.abort(node, f"iteration over a value of type {t}")
+
+    def obj_call_plain(self, c, env) -> bool:
+        """`x.m(..)` on a variable holding an object, m returning no view: the earlier extensions translate it."""
+        oc = self.obj_call(c, env)
+        return oc is not None and not (oc[3].ret and self.viewish(oc[3].ret)) and not self.view_class(oc[1].name)
+
+    def callee_spec(self, v, env) -> Optional[FunSpec]:
+        """The method spec `v` (a method call on self, on an attribute of self referring to an object, or on a variable)
+        reaches; None when it is not such a call."""
+        if _is_self_call(v) and self.cls is not None:
+            return self.resolve(v)
+        oc = self.obj_call(v, env)
+        return oc[3] if oc is not None else None
+
+    def read_only(self, x: str) -> bool:
+        """Is the local variable `x` (holding a reference to an object that lives elsewhere) only ever tested against None
+        and used as the receiver of methods that only read their object?"""
+        parents = {id(c): n for n in ast.walk(self.fn) for c in ast.iter_child_nodes(n)}
+        nstore = 0
+        for n in ast.walk(self.fn):
+            if not (isinstance(n, ast.Name) and n.id == x):
+                continue
+            par = parents.get(id(n))
+            if not isinstance(n.ctx, ast.Load):
+                nstore += 1
+                continue
+            if isinstance(par, ast.Compare) and par.left is n and len(par.ops) == 1 and isinstance(par.ops[0], (ast.Is, ast.IsNot)):
+                continue
+            if isinstance(par, ast.Attribute) and isinstance(parents.get(id(par)), ast.Call) and parents[id(par)].func is par:
+                t = self.spec.types.get(x, "")
+                k, cname, _ = self.kind(arg_of(t) if is_option(t) else t)
+                m = next((y for y in self.unit.done_methods.get(cname, []) if y.name == par.attr), None)
+                if k == "class" and m is not None and m.pure:
+                    continue
+            return False
+        return nstore == 1
+
+    def chain_recv_type(self, e, env) -> Optional[str]:
+        """The type of the receiver `e` of a final `[k] = v` when it is a view construction, a variable holding an
+        object, or a chain; else None."""
+        if isinstance(e, ast.Call) and isinstance(e.func, ast.Name) and e.func.id not in self.spec.types \
+                and self.view_class(e.func.id):
+            return e.func.id
+        if isinstance(e, ast.Name) and e.id in env and e.id in self.spec.types and e.id != "self" \
+                and self.kind(self.vtype(e, e.id, env))[0] in ("class", "union"):
+            return self.vtype(e, e.id, env)
+        return self.chain_type(e, env)
+
+    def chain_on_base(self, e, env, hoist, setitem):
+        """`B[k] = v` with B a view construction or a variable (a chain without a step before the final store)."""
+        if isinstance(e, ast.Name):
+            fake = ast.copy_location(ast.Subscript(value=e, slice=setitem[0], ctx=ast.Load()), e)
+        else:
+            fake = ast.copy_location(ast.Subscript(value=e, slice=setitem[0], ctx=ast.Load()), e)
+        base, steps = self.chain_parse(fake, env)
+        # run the chain machinery with no step but the store
+        saved = self.chain_parse
+        try:
+            self.chain_parse = lambda _e, _env: (base, [])
+            self.chain(fake, env, hoist, setitem=setitem)
+        finally:
+            self.chain_parse = saved
 
     # ---------------------------------------------------------------- statements
     def mark_calls(self, s):
@@ -1812,6 +2942,10 @@ class _Fun:
         self.mark_calls(s)
         if isinstance(s, (ast.Return, ast.Break)) and rest:
             self.abort(rest[0], "statement after return/break")
+        if self.tables():
+            r = self.block6(s, rest, env, ctx, h)
+            if r is not None:
+                return r
         if isinstance(s, ast.Return) and isinstance(s.value, ast.BoolOp) and self.unit is not None and self.spec.ret == "bool" \
                 and self.pure_calls() and len(s.value.values) >= 2 and self.later_operand_raises(s.value, env):
             # return a or b (a and b) on booleans, b able to raise: b is evaluated only when a is false (true)
@@ -1828,7 +2962,8 @@ class _Fun:
             # raise E("message"): E a modelled built-in exception (the message is not modelled)
             x = s.exc
             if s.cause is not None or not (isinstance(x, ast.Call) and isinstance(x.func, ast.Name) and x.func.id in RAISABLE
-                                           and not x.keywords and all(isinstance(a, ast.Constant) for a in x.args)) \
+                                           and not x.keywords and all(isinstance(a, ast.Constant) or self.plain_fstring(a)
+                                                                      for a in x.args)) \
                     or x.func.id in self.spec.types or self.unit.rebinds(x.func.id):
                 self.abort(s, "raise outside the handled subset (raise <built-in error>(<literals>))")
             if rest:
@@ -1900,7 +3035,7 @@ class _Fun:
                 if x in self.params and not m.pure:
                     self.abort(s, f"{x}.{m.name}(..) on a parameter (it would be mutated for the caller)")
                 args = self.method_args(c, cls, m, sfx, env, h)
-                call = " ".join([self.callee(s, cls, m, sfx), x] + args)
+                call = self.mcall(s, cls, m, sfx, x, args)
                 return self.hoisted(h, [f"match {call} with", "| Err e' => " + ctx.fail("e'"),
                                         f"| Ok ({'_' if m.pure else x}, _) =>"] + _ind(self.block(rest, env, ctx)) + ["end"], ctx)
         if isinstance(s, ast.Expr) and self.unit is not None and self.unit.ntrees and isinstance(s.value, ast.Call) \
@@ -1980,7 +3115,7 @@ class _Fun:
                         self.abort(s, f"store into {d} (a parameter / an attribute), or with a key that is not a node of a {tree}")
                     val = self.expr(s.value, vt, env, h)                   # the value first, then the key
                     key = self.raw(target.slice, tree, env, h)
-                    return self.hoisted(h, [f"let {d} := (cons ({tree}_id {key}, {val}) {d}) in"] + self.block(rest, env, ctx), ctx)
+                    return self.hoisted(h, [f"let {d} := (cons ({self.unit.q(tree)}{tree}_id {key}, {val}) {d}) in"] + self.block(rest, env, ctx), ctx)
             if isinstance(target, ast.Tuple) and self.unit is not None and isinstance(s, ast.Assign) \
                     and isinstance(s.value, ast.Attribute) and s.value.attr == "children" \
                     and isinstance(s.value.value, ast.Name) and s.value.value.id in env \
@@ -2000,7 +3135,8 @@ class _Fun:
                     self.subtrees.update(names)
                 self.need("ValueError")
                 env2 = env + [v for v in names if v not in env]
-                return [f"match {x} with", f"| {tt}_leaf _ => {ctx.fail('ValueError')}", f"| {tt}_node _ {names[0]} {names[1]} =>"] \
+                qt = self.unit.q(tt) + tt
+                return [f"match {x} with", f"| {qt}_leaf _ => {ctx.fail('ValueError')}", f"| {qt}_node _ {names[0]} {names[1]} =>"] \
                     + _ind(self.block(rest, env2, ctx)) + ["end"]
             if isinstance(target, ast.Subscript) and self.edict_of(target.value, env) is not None:
                 self.abort(s, "store into a dictionary keyed by elements other than d[k] op= e")
@@ -2107,15 +3243,19 @@ class _Fun:
         if isinstance(s, ast.If) and self.static_bool(s.test, env) is not None:
             # the declared types decide the test: the other branch can never run and is not translated
             sb = self.static_bool(s.test, env)
+            taken = s.body if sb else s.orelse
+            if self.tables() and taken and isinstance(taken[-1], (ast.Return, ast.Raise)):
+                rest = []                      # what follows can never run and is not translated
             return [f"(* line {s.lineno}: the declared types make this test {'true' if sb else 'false'} *)"] \
-                + self.block((s.body if sb else s.orelse) + rest, env, ctx)
+                + self.block(taken + rest, env, ctx)
         if isinstance(s, ast.If):
             inner, lines = ctx, []
             nar = self.narrowing(s.test, env)
             if nar is not None and nar[0] in self.assigned(s.body + s.orelse):
                 self.abort(s, f"{nar[0]!r} is tested for truth and assigned in a branch")
             if rest:
-                mod = [v for v in env if v in self.assigned(s.body + s.orelse)]
+                upd = self.assigned(s.body + s.orelse + ([ast.Expr(value=s.test)] if self.tables() else []))
+                mod = [v for v in env if v in upd]
                 if any(v + "!" in env for v in mod):
                     self.abort(s, "a variable narrowed by an assert is assigned in a branch")
                 self.nk += 1
@@ -2166,7 +3306,17 @@ class _Fun:
             it, kind, targets = s.iter, "children", [s.target.id]
         elif isinstance(s, ast.For) and self.unit is not None and isinstance(s.target, ast.Name) \
                 and (isinstance(s.iter, ast.Name) or isinstance(s.iter, ast.Call) and self.obj_call(s.iter, env) is not None
-                     or self.tail_slice(s.iter, env) is not None or self.container_iter(s.iter, env) is not None):
+                     or self.tail_slice(s.iter, env) is not None or self.container_iter(s.iter, env) is not None
+                     or self.iter6(s.iter, env)):
+            it, kind, targets = s.iter, "each", [s.target.id]
+        elif isinstance(s, ast.For) and self.tables() and isinstance(s.target, ast.Tuple) and len(s.target.elts) == 2 \
+                and all(isinstance(x, ast.Name) for x in s.target.elts) and isinstance(s.iter, ast.Name) and s.iter.id in env \
+                and is_list(self.ntype(s.iter, env)) and is_pair(arg_of(self.ntype(s.iter, env))):
+            # for a, b in xs, xs a list of 2-tuples
+            it, kind, targets = s.iter, "each", [x.id for x in s.target.elts]
+            pattern = list(targets)
+        elif isinstance(s, ast.For) and isinstance(s.target, ast.Name) and self.traverse_of(s.iter, env) is not None \
+                and not (isinstance(s.iter.func.value, ast.Name) and self.traverse_of(s.iter, env)[1] == "preorder"):
             it, kind, targets = s.iter, "each", [s.target.id]
         elif isinstance(s, ast.For) and self.unit is not None and isinstance(s.iter, ast.Call) \
                 and isinstance(s.iter.func, ast.Name) and s.iter.func.id == "product" and "product" in self.unit.builtins \
@@ -2220,7 +3370,7 @@ class _Fun:
                                       for b in s.body for c in ast.walk(b)):
             self.abort(s, "recursive call inside a loop")
         rec_inside = any(self.is_self_rec(c) for b in s.body for c in ast.walk(b))
-        if rec_inside and kind != "children":
+        if rec_inside and kind != "children" and not (self.tables() and kind == "each"):
             self.abort(s, "recursive call inside a loop other than 'for c in <node>.children'")
         fuel_inside = any(self.is_self_fuel(c) for b in s.body for c in ast.walk(b))
         if fuel_inside and (kind != "each" or alias is not None or isinstance(it, ast.Call)):
@@ -2309,12 +3459,27 @@ class _Fun:
             call = args([term] + ["O"] * len(idx))
         elif kind == "each":
             term, cty, et = self.iterable(s, it, env, h, mutated)
-            if self.ty(s, targets[0]) != et:
+            item = targets[0]
+            if pattern is not None:
+                if [self.ty(s, x) for x in pattern] != pair_args(et):
+                    self.abort(s, f"the loop variables must be declared {pair_args(et)}")
+                item = "(" + ", ".join(pattern) + ")"
+            elif self.ty(s, targets[0]) != et and not (self.tables() and self.canon(self.ty(s, targets[0])) == self.canon(et)):
                 self.abort(s, f"the loop variable must be declared {et}")
+            if rec_inside:
+                # the body calls the enclosing function (structural recursion on a tree parameter): the loop is a local [fix]
+                # inside that function's Fixpoint, over the variables the body assigns (the others are in scope)
+                ctx.fall = " ".join([name, "it''"] + state)
+                body = self.block(s.body, inner_env + targets, ctx)
+                head = " ".join([f"(fix {name} (it' : {cty})"] + [self.binder(s, v) for v in state]
+                                + [f"{{struct it'}} : flow ({sty}) ({self.RR}) :="])
+                lines = [head, "   match it' with", f"   | nil => Next {tup}", f"   | cons {item} it'' =>"] \
+                    + _ind(_ind(_ind(body))) + ["   end) " + " ".join([term] + state)]
+                return lines, state
             ctx.fall = args(["it''"])
             body = self.block(s.body, inner_env + targets, ctx)
             fix = [sig(f"(it' : {cty})", "it'"), "  match it' with", f"  | nil => Next {tup}",
-                   f"  | cons {targets[0]} it'' =>"] + _ind(_ind(body)) + ["  end."]
+                   f"  | cons {item} it'' =>"] + _ind(_ind(body)) + ["  end."]
             call = args([term])
         elif kind == "preorder":
             # for x in t.traverse("preorder"): the node, then its first subtree, then its second one (ete3); the loop is a
@@ -2411,6 +3576,15 @@ class _Fun:
             if ts[0] in mutated:
                 self.abort(s, "the loop modifies the sequence it iterates")
             return f"(skipn {ts[1]} {ts[0]})", self.ct(t), arg_of(t)
+        tr = self.traverse_of(a, env)
+        if tr is not None:
+            # for x in t.traverse(<strategy>): the nodes of t (each the subtree it roots) in that order
+            tt, strategy, v = tr
+            if any(n in mutated for n in _names([v])):
+                self.abort(s, "the loop modifies what the tree it traverses is computed from")
+            self.unit.traversals.add((tt, strategy))
+            ctt = self.ct(tt)
+            return f"({tt}_{strategy} {self.expr(v, tt, env, h)})", f"list {ctt if ' ' not in ctt else '(' + ctt + ')'}", tt
         ci = self.container_iter(a, env)
         if ci == "values":
             # for v in d.values(): the values of the items, in order
@@ -2420,8 +3594,18 @@ class _Fun:
             vt = self.unit.elemdicts[self.spec.types[d]]
             return f"(map snd {d})", f"list {self.ct(vt) if ' ' not in self.ct(vt) else '(' + self.ct(vt) + ')'}", vt
         t = self.ntype(a, env)
-        if is_list(t):
+        if is_list(t) or (self.tables() and is_tuple(t)):
             et = arg_of(t)
+            if self.tables() and self.iter6(a, env):
+                # a slice of a tuple / the value of a chain (a set or a list read through views): evaluated once, before the loop
+                if any(v in mutated for v in _names([a])):
+                    self.abort(s, "the loop modifies what the sequence it iterates is computed from")
+                return self.expr(a, t, env, h), self.ct(t), et
+        elif self.tables() and self.kind(t)[0] == "set" and self.iter6(a, env):
+            # a set read through views: Python fixes no order for its items: the unit's order function for that instance decides
+            term = self.expr(a, t, env, h)
+            order = self.unit.set_orders.get(self.kind(t)[2])
+            return (f"({order} {term})" if order else term), self.ct(t), "elem" + self.kind(t)[2]
         elif self.kind(t)[0] == "set":
             et = "elem" + self.kind(t)[2]
         elif self.kind(t)[0] == "seqset":
@@ -2528,6 +3712,11 @@ class _Fun:
                     self.abort(x, f"parameter {x.arg!r}: only a non-negative int literal default on an int parameter is handled")
                 self.fun_defaults[x.arg] = d.value
                 continue
+            if self.tables() and isinstance(d, ast.Attribute) and isinstance(d.value, ast.Name) and d.value.id in self.unit.enums \
+                    and d.attr in self.unit.enums[d.value.id] and self.spec.types.get(x.arg) == d.value.id:
+                # a parameter whose default is a member of a declared enum: a call that omits it passes the member
+                self.enum_defaults[x.arg] = f"{self.unit.q(d.value.id)}{d.value.id}_{d.attr}"
+                continue
             # a parameter with the default None that every translated call omits is the constant None
             if isinstance(d, ast.Constant) and d.value is None and self.unit.passed_defaults \
                     and self.kind(self.spec.types.get(x.arg, "none"))[0] == "tree":
@@ -2550,6 +3739,11 @@ class _Fun:
             return self.translate_method()
         binders = " ".join(self.binder(fn, p) for p in self.params)
         ctx = _Ctx(ret=lambda e: f"Ok {e}", fail=lambda e: f"Err {e}", fall=None)
+        self.scan_cursors()
+        if self.tables() and not self.spec.rec_fuel and (self.spec.ret == "unit" or self.spec.generator or self.spec.fresh or any(
+                self.kind(self.spec.types.get(m, ""))[0] == "class" for m in self.spec.mutates)
+                or (self.spec.rec_on and self.kind(self.spec.types.get(self.spec.rec_on, ""))[0] == "tree")):
+            return self.translate_sixth(binders)
         if self.spec.mutates or self.spec.rec_fuel:
             return self.translate_fifth(binders)
         if self.spec.rec_on and (self.unit is None or self.spec.rec_on not in self.params
@@ -2611,6 +3805,7 @@ class _Fun:
         binders = " ".join(self.binder(fn, p) for p in self.params)
         name = self.prefix + (self.spec.alias or fn.name)
         head = f"(* {cls.name}.{fn.name}, line {fn.lineno} *)\n"
+        self.scan_cursors()
 
         def fall(env):
             missing = [v for v in self.fieldvars if v not in env]
@@ -2623,7 +3818,18 @@ class _Fun:
             fall = lambda env: f"Ok {self.pack('tt')}"
         ctx = _Ctx(ret=lambda e: f"Ok {self.pack(e)}", fail=lambda e: f"Err {e}",
                    fall=fall if init or self.spec.ret == "unit" else None, retp=lambda e: f"Ok {e}")
-        body = self.block(fn.body, list(self.params) + self.absent + ([] if init else self.fieldvars), ctx)
+        gen = ["acc'"] if self.tables() and self.spec.generator else []
+        if gen:
+            if init or not is_list(self.spec.ret) or not any(isinstance(n, (ast.Yield, ast.YieldFrom)) for n in ast.walk(fn)):
+                self.abort(fn, "a generator is a method other than __init__ that yields; its declared result is the list of what it yields")
+            ctx.fall = lambda env: f"Ok {self.pack(chr(97) + 'cc' + chr(39))}"
+        elif any(isinstance(n, (ast.Yield, ast.YieldFrom)) for n in ast.walk(fn)):
+            self.abort(fn, "yield in a function that is not declared a generator")
+        if self.tables() and self.spec.fresh:
+            self.check_fresh()
+        body = self.block(fn.body, list(self.params) + self.absent + ([] if init else self.fieldvars + list(self.viewvars)) + gen, ctx)
+        if gen:
+            body = [f"let acc' := (@nil ({self.ct(arg_of(self.spec.ret))})) in"] + body
         if init:
             return head + "\n\n".join(self.fixpoints + [
                 f"Definition {name}{' ' * bool(binders)}{binders} : res ({self.RR}) :=\n" + "\n".join(_ind(body)) + "."])
@@ -2669,9 +3875,34 @@ class _SelfRewriter(ast.NodeTransformer):
             node.func.value.is_call_base = True
             node.args = [self.visit(a) for a in node.args]
             return node
+        if unit is not None and unit.tables and isinstance(node.func, ast.Name) and node.func.id in unit.classes \
+                and unit.classes[node.func.id].views and node.args and isinstance(node.args[0], ast.Name) \
+                and node.args[0].id == "self" and list(unit.classes[node.func.id].views.values())[0] == self.cls.name:
+            node.args[0].is_call_base = True      # V(self, ..): a view of this object
+        return self.generic_visit(node)
+
+    def visit_Return(self, node):
+        unit = self.fun.unit
+        if unit is not None and unit.tables and isinstance(node.value, ast.Name) and node.value.id == "self" \
+                and unit.kind(self.fun.spec.ret)[0] == "union":
+            node.value.is_call_base = True        # return self: the object itself, where a union of classes is expected
+            return node
         return self.generic_visit(node)
 
     def visit_Attribute(self, node):
+        views = self.cls.views
+        if views and isinstance(node.value, ast.Attribute) and isinstance(node.value.value, ast.Name) \
+                and node.value.value.id == "self" and node.value.attr in views:
+            # self.f.g, f an attribute referring to an object of a translated class: the variable self'f'g (g an attribute
+            # of that class, only read) or the method g of the object self'f
+            f = node.value.attr
+            target = self.fun.unit.classes[views[f]]
+            if node.attr in target.fields:
+                if not isinstance(node.ctx, ast.Load):
+                    self.fun.abort(node, f"assignment to self.{f}.{node.attr}")
+                return ast.copy_location(ast.Name(id=f"self'{f}'{node.attr}", ctx=ast.Load()), node)
+            node.value = ast.copy_location(ast.Name(id="self'" + f, ctx=ast.Load()), node.value)
+            return node
         if isinstance(node.value, ast.Name) and node.value.id == "self":
             if node.attr not in self.cls.fields:
                 self.fun.abort(node, f"self.{node.attr} is not a declared attribute")
@@ -2738,16 +3969,41 @@ class Unit:
         self.set_order: Optional[str] = None   # Section parameter `list A -> list A`: the order in which a set variable is iterated
         self.elemdicts: Dict[str, str] = {}    # dictionary keyed by elements -> declared type of its values
         self.mutates: Dict[str, tuple] = {}    # translated function -> the (dictionary) parameters it updates in place
+        # sixth extension (all empty / False for the units that do not call `use_tables`)
+        self.tables = False                    # tuples as sequences, marker classes, cells / references, views, unions, imports
+        self.markers: Dict[str, list] = {}     # class without attributes (`@dataclass class C(B): <docstring>`) -> its base names
+        self.cellspec: Optional[dict] = None   # the type of the cells of a nested table (see `cells`)
+        self.unions: Dict[str, list] = {}      # union type -> the translated classes whose objects it holds
+        self.quals: Dict[str, str] = {}        # declared name taken from another generated file -> that file's module alias
+        self.targs: Dict[str, str] = {}        # such a type -> its type arguments (`{A}`: the element type of the instance)
+        self.heads: Dict[object, str] = {}     # (class, method key) of such a class -> head of a call (`{A}`, `{eqb}` as above)
+        self.head_lift: Dict[object, str] = {}  # (class, method key) of such a class -> the lift of the file that defines it
+        self.local_methods: set = set()        # (class, method key): a method of a class of another file translated in this one
+        self.set_orders: Dict[str, str] = {}   # instance suffix -> Section parameter: the order in which a set of that instance is iterated
+        self.unwrap_none = False               # `x.f` of an optional field where a value is needed: the error NoneValue when None
+        self.type_alias: Dict[str, str] = {}   # a type name -> the declared type it is another name of (`elem2` -> the tag type)
+        self.opaque_attrs: Dict[str, dict] = {}    # opaque type -> {attribute: (declared type, Coq function)}
+        self.traversals: set = set()           # (tree type, strategy) of the traversals the translated code iterates
+        self.ret_override: Dict[object, str] = {}   # (class, method key) -> result type here (a method used at another element type)
+        self.lifts: Dict[str, str] = {}        # module alias -> the function converting that file's `res` into this file's
+        self.section_vars: List[str] = []      # further explicit variables of the Section (`keqb`), in the order of its Context
+        self.method_uses_vars: Dict[object, set] = {}   # (class, method key) / function -> the section variables its text uses
+        self.method_defaults: Dict[object, dict] = {}   # (class, method key) -> {parameter: Coq term of its (enum member) default}
+        self.data_defaults: Dict[str, dict] = {}        # dataclass -> {field: Coq term of its default (None)}
+        self.coercions: Dict[tuple, str] = {}  # (type of the value, expected type) -> format of the conversion (`{}`: the value)
 
     # ------------------------------------------------------------ declared types
     def parametric(self) -> set:
         """Type names that depend on the element type."""
-        return {"elem", "set"} | set(self.datas) | set(self.classes)
+        return {"elem", "set"} | set(self.datas) | set(self.classes) | set(self.unions) \
+            | ({self.cellspec["name"]} if self.cellspec else set())
 
     def extra_names(self) -> set:
         base = set(self.opaques) | set(self.enums) | {"unit", "none"} | set(self.trees) | set(self.mappings) \
             | set(self.enumdicts) | set(self.nodedicts) | set(self.ntrees) | set(self.foreigns) | set(self.elemdicts) \
             | ({"deque", "seqset"} if self.containers else set())
+        if self.tables:
+            base |= {"tuple", "cursor"} | set(self.markers) | set(self.unions) | ({self.cellspec["name"]} if self.cellspec else set())
         return base | {p + s for p in self.parametric() for s in self.insts}
 
     def kind(self, t: str):
@@ -2771,10 +4027,20 @@ class Unit:
             return "elemdict", t, ""
         if self.containers and t in ("deque", "seqset"):
             return t, t, ""
+        if self.tables:
+            if t in self.markers:
+                return "marker", t, ""
+            if t in self.unions:
+                return "union", t, ""
+            if self.cellspec and t == self.cellspec["name"]:
+                return "cell", t, ""
+            if t == "cursor":
+                return "cursor", t, ""
         for sfx in sorted(self.insts, key=len, reverse=True):
             b = t[:len(t) - len(sfx)] if sfx else t
             if t.endswith(sfx) and b in self.parametric():
-                k = "data" if b in self.datas else "class" if b in self.classes else b
+                k = "data" if b in self.datas else "class" if b in self.classes else "union" if b in self.unions \
+                    else "cell" if self.cellspec and b == self.cellspec["name"] else b
                 return k, b, sfx
         return None, t, ""
 
@@ -2794,8 +4060,26 @@ class Unit:
                 base[d + sfx] = d + arg
             for c, spec in self.classes.items():
                 base[c + sfx] = f"{spec.short}_state{arg}"
+            for n in self.quals:             # a type of another generated file: qualified, with its type arguments
+                if n in self.datas or n in self.classes:
+                    own = n if n in self.datas else f"{self.classes[n].short}_state"
+                    ta = self.targs.get(n, "").replace("{A}", a)
+                    base[n + sfx] = f"{self.quals[n]}.{own}" + (" " + ta if ta else "")
+        for n in self.quals:
+            if n in self.enums or n in self.markers or n in self.trees or n in self.enumdicts:
+                ta = self.targs.get(n, "")
+                base[n] = f"{self.quals[n]}.{n}" + (" " + ta if ta else "")
+            if n in self.unions or (self.cellspec and n == self.cellspec["name"]):
+                for sfx, (a, _) in self.insts.items():
+                    ta = self.targs.get(n, "").replace("{A}", a)
+                    base[n + sfx] = f"{self.quals[n]}.{n}" + (" " + ta if ta else "")
+        if self.tables:
+            for n in list(self.markers) + list(self.unions) + ([self.cellspec["name"]] if self.cellspec else []):
+                base.setdefault(n, n)
+            if self.cellspec:
+                base["cursor"] = f"list {self.cellspec['key']}"
         if not self.opaques and not self.enums and not self.datas and not self.classes and not self.outside \
-                and not self.ntrees and not self.foreigns and not self.containers:
+                and not self.ntrees and not self.foreigns and not self.containers and not self.tables:
             return {}
         if self.containers:
             base["deque"] = base["seqset"] = f"list {self.insts[''][0]}"
@@ -3012,6 +4296,386 @@ class Unit:
         self.imported("product", "itertools")
         self.builtins.add("product")
 
+    # ------------------------------------------------------------ sixth extension: declarations
+    def use_tables(self, section_vars=()):
+        """Switch on the sixth extension (see the module docstring).  `section_vars`: the explicit variables of the Section
+        other than `eqb` (in the order of its Context) whose use by each generated function is tracked, so that a file that
+        imports this one knows which of them a function takes once the Section is closed."""
+        self.tables = True
+        self.section_vars = list(section_vars)
+        self.taken.update(self.section_vars)
+
+    def marker(self, name: str) -> str:
+        """`@dataclass class <name>(<bases>)` without any attribute (a docstring only): a type with one value.  Its bases
+        (classes of the module without attributes either) are recorded: `isinstance(x, C)` on a variable declared of a
+        marker type is decided by the declared type."""
+        cls = self._unique(self.tree.body, name, ast.ClassDef)
+        self.imported("dataclass", "dataclasses")
+        bases = []
+        todo = [cls]
+        while todo:
+            c = todo.pop()
+            d = c.decorator_list
+            if len(d) != 1 or not (isinstance(d[0], ast.Name) and d[0].id == "dataclass") or c.keywords \
+                    or any(not (isinstance(b, ast.Expr) and isinstance(b.value, ast.Constant) and isinstance(b.value.value, str))
+                           for b in c.body):
+                self.abort(c, f"{c.name} is not a plain '@dataclass class' whose body is a docstring")
+            for b in c.bases:
+                if not isinstance(b, ast.Name) or b.id == c.name:
+                    self.abort(c, f"base of {c.name} other than a class of the module")
+                bases.append(b.id)
+                todo.append(self._unique(self.tree.body, b.id, ast.ClassDef))
+        if not self.tables or name in RESERVED or name in self.extra_names():
+            self.abort(cls, f"class name {name!r} is in use (or `use_tables` was not called)")
+        self.markers[name] = bases
+        self.taken.update({name, "mk_" + name})
+        return f"(* class {name} (no attribute), line {cls.lineno} *)\nInductive {name} : Set := mk_{name}."
+
+    def cells(self, name: str, key: str, keqb: str, entry: str, factory: str, env: str) -> str:
+        """The type `name` of what a cell of a nested table holds: `None`, an object of the translated class `entry`, or a
+        `defaultdict` keyed by values of the Coq type `key` (compared with `keqb`) whose factory is `lambda: <factory>(x)` --
+        `factory` a function of the module translated later (`cell_helpers` comes after it), `x` a captured variable of the
+        declared type `env` -- kept as the value of x and the items in insertion order.  A variable of the declared type
+        `cursor` is a reference to a cell reached from the root by subscripting: the list of the keys followed."""
+        if not self.tables or self.cellspec is not None or name in RESERVED or name in self.extra_names() or entry not in self.classes:
+            self.abort(self.tree, f"cell type {name!r}: name in use / entry class {entry!r} not translated / `use_tables` not called")
+        self.imported("defaultdict", "collections")
+        try:
+            env = norm_type(env, self.extra_names())
+        except ValueError as e:
+            self.abort(self.tree, f"unknown declared type {e.args[0]!r} for the captured variable of the factory of {name}")
+        if self.kind(key)[0] != "opaque":
+            self.abort(self.tree, f"the keys of {name} must be of a declared opaque type")
+        self.cellspec = {"name": name, "key_type": key, "key": coq_type(key, self.coq_base()), "keqb": keqb, "entry": entry,
+                         "factory": factory, "env": env}
+        key = self.cellspec["key"]
+        self.taken.update({name, key, keqb} | {f"{name}_{x}" for x in (
+            "None", "Entry", "dict", "is_None", "set", "touch1", "at", "alter", "touch", "get", "store", "entry")})
+        et = coq_type(entry, self.coq_base())
+        return "\n".join([
+            f"(* {name}: what a cell of the nested table holds: None, an entry, or a defaultdict -- the captured argument [env] of its",
+            f"   factory [lambda: {factory}(env)] and its items in insertion order *)",
+            f"Inductive {name} : Type :=",
+            f"| {name}_None",
+            f"| {name}_Entry (e : {et})",
+            f"| {name}_dict (env : {coq_type(env, self.coq_base())}) (items : list ({key} * {name}))."])
+
+    def cell_helpers(self) -> str:
+        """The operations on cells and references (placed after the factory function, which they call)."""
+        c = self.cellspec
+        if c is None or c["factory"] not in self.functions:
+            self.abort(self.tree, "cell helpers before the cell type is declared and its factory translated")
+        n, k, q = c["name"], c["key"], c["keqb"]
+        self.helpers.update({"adict_get", "adict_set"})
+        self.errors.update({"TypeError", "KeyError", "AttributeError"})
+        fac = self.prefix + (self.functions[c["factory"]].alias or c["factory"])
+        et = coq_type(c["entry"], self.coq_base())
+        return "\n".join([
+            f"(* x is None *)",
+            f"Definition {n}_is_None (c : {n}) : bool := match c with {n}_None => true | _ => false end.",
+            f"(* d[k] = v on the dictionary d (TypeError: d is not a dictionary) *)",
+            f"Definition {n}_set (k : {k}) (v : {n}) (d : {n}) : res {n} :=",
+            f"  match d with {n}_dict env items => Ok ({n}_dict env (adict_set {q} items k v)) | _ => Err TypeError end.",
+            f"(* what reading d[k] does to the defaultdict d: a missing key is first given the value of the factory (at the end) *)",
+            f"Definition {n}_touch1 (k : {k}) (d : {n}) : res {n} :=",
+            f"  match d with",
+            f"  | {n}_dict env items =>",
+            f"    match adict_get {q} items k with",
+            f"    | Some _ => Ok d",
+            f"    | None => match {fac} env with Err e => Err e | Ok v => Ok ({n}_dict env (adict_set {q} items k v)) end",
+            f"    end",
+            f"  | _ => Err TypeError",
+            f"  end.",
+            f"(* the cell a reference designates: [path] lists the keys followed from the root *)",
+            f"Fixpoint {n}_at (path : list {k}) (c : {n}) {{struct path}} : res {n} :=",
+            f"  match path with",
+            f"  | nil => Ok c",
+            f"  | cons k path' =>",
+            f"    match c with",
+            f"    | {n}_dict _ items => match adict_get {q} items k with Some v => {n}_at path' v | None => Err KeyError end",
+            f"    | _ => Err TypeError",
+            f"    end",
+            f"  end.",
+            f"(* the root once the cell a reference designates is replaced by [f] of it *)",
+            f"Fixpoint {n}_alter (f : {n} -> res {n}) (path : list {k}) (c : {n}) {{struct path}} : res {n} :=",
+            f"  match path with",
+            f"  | nil => f c",
+            f"  | cons k path' =>",
+            f"    match c with",
+            f"    | {n}_dict env items =>",
+            f"      match adict_get {q} items k with",
+            f"      | Some v => match {n}_alter f path' v with Err e => Err e | Ok v' => Ok ({n}_dict env (adict_set {q} items k v')) end",
+            f"      | None => Err KeyError",
+            f"      end",
+            f"    | _ => Err TypeError",
+            f"    end",
+            f"  end.",
+            f"(* r[k] read / r[k] = v, r a reference: the root after the read (the defaultdict may gain the key), the value read,",
+            f"   the root after the store *)",
+            f"Definition {n}_touch (path : list {k}) (k : {k}) (root : {n}) : res {n} := {n}_alter ({n}_touch1 k) path root.",
+            f"Definition {n}_get (path : list {k}) (k : {k}) (root : {n}) : res {n} := {n}_at (path ++ cons k nil) root.",
+            f"Definition {n}_store (path : list {k}) (k : {k}) (v : {n}) (root : {n}) : res {n} := {n}_alter ({n}_set k v) path root.",
+            f"(* a cell where None or an entry is expected (a dictionary: the AttributeError of the method call that follows) *)",
+            f"Definition {n}_entry (c : {n}) : res (option ({et})) :=",
+            f"  match c with {n}_None => Ok None | {n}_Entry e => Ok (Some e) | {n}_dict _ _ => Err AttributeError end."])
+
+    def union(self, name: str, members: List[str]) -> str:
+        """A type whose values are objects of one of the translated classes `members` (what a method returning objects of
+        different classes returns).  The members are views of the same class through an attribute each (`ClassSpec.views`):
+        `<name>_parent` is the viewed object.  `union_methods` (after the members are translated) emits the dispatch."""
+        if not self.tables or name in RESERVED or name in self.extra_names() or len(members) < 2 \
+                or any(self.kind(m)[0] != "class" for m in members):
+            self.abort(self.tree, f"union {name!r}: name in use, or members that are not translated classes")
+        self.unions[name] = list(members)
+        self.taken.update({name, name + "_parent"} | {f"{name}_{m}" for m in members})
+        b = self.coq_base()
+        rows = " | ".join(f"{name}_{m} (s : {coq_type(m, b)})" for m in members)
+        text = [f"(* an object of one of the classes {', '.join(members)} *)", f"Inductive {name} : Type := {rows}."]
+        if all(m in self.classes and len(self.classes[m].views) == 1 for m in members) \
+                and len({list(self.classes[m].views.values())[0] for m in members}) == 1:
+            # views of objects of one class: the object viewed
+            target = list(self.classes[members[0]].views.values())[0]
+            proj = " | ".join(f"{name}_{m} s => {self.classes[m].short}_{list(self.classes[m].views)[0]} s" for m in members)
+            text.append(f"Definition {name}_parent (p : {name}) : {coq_type(target, b)} := match p with {proj} end.")
+        return "\n".join(text)
+
+    def union_methods(self, name: str, specs: List[FunSpec]) -> str:
+        """The methods of a union: `x.m(..)` on a value of the union calls the method of the class of the object; a class
+        that does not have it (translated) answers AttributeError (TypeError for `x[k]` / `x[k] = v`: not subscriptable).
+        `specs`: name, parameter types and result type of each method (checked against the members that have it)."""
+        members = self.unions[name]
+        parts = []
+        self.done_methods[name] = []
+        b = self.coq_base()
+        for spec in specs:
+            spec = self._norm(self.tree, spec)
+            having = []
+            for m in members:
+                cm = next((x for x in self.done_methods.get(m, []) if x.name == spec.name), None)
+                if cm is None:
+                    continue
+                ps = self.params[(m, _mkey(cm))] + ([self.varargs[(m, _mkey(cm))]] if (m, _mkey(cm)) in self.varargs else [])
+                if ps != list(spec.types) or any(cm.types[q] != spec.types[q] for q in ps) or cm.ret != spec.ret \
+                        or (having and ((m, _mkey(cm)) in self.varargs) != ((having[0][0], _mkey(having[0][1])) in self.varargs)):
+                    self.abort(self.tree, f"{m}.{spec.name} does not have the parameters / result declared for {name}.{spec.name}")
+                having.append((m, cm))
+            if not having:
+                self.abort(self.tree, f"no member of {name} has a translated method {spec.name}")
+            ps = list(spec.types)
+            var = self.varargs.get((having[0][0], _mkey(having[0][1])))
+            uses, uses_eqb = set(), False
+            rows = []
+            for m in members:
+                cm = next((x for mm, x in having if mm == m), None)
+                if cm is None:
+                    self.errors.add("TypeError" if spec.name in ("__getitem__", "__setitem__") else "AttributeError")
+                    rows.append(f"  | {name}_{m} _ => Err " + ("TypeError" if spec.name in ("__getitem__", "__setitem__") else "AttributeError"))
+                    continue
+                uses |= self.method_uses_vars.get((m, _mkey(cm)), set())
+                uses_eqb = uses_eqb or self.method_uses_eqb.get((m, _mkey(cm)), False)
+                call = " ".join([self.prefix + (cm.alias or cm.name), "s"] + ps)
+                rows.append(f"  | {name}_{m} s => match {call} with Err e' => Err e' | Ok (s, r') => Ok ({name}_{m} s, r') end")
+            alias = spec.alias or f"{name}_{spec.name.strip('_')}"
+            spec = replace(spec, alias=alias)
+            self.done_methods[name].append(spec)
+            self.params[(name, spec.name)] = [q for q in ps if q != var]
+            if var is not None:
+                self.varargs[(name, spec.name)] = var
+            self.method_uses_vars[(name, spec.name)] = uses
+            self.method_uses_eqb[(name, spec.name)] = uses_eqb
+            binders = "".join(f" ({q} : {coq_type(spec.types[q], b)})" for q in ps)
+            rt = coq_type(spec.ret, b)
+            parts.append("\n".join([f"(* {name}: {spec.name} of the class of the object *)",
+                                    f"Definition {self.prefix}{alias} (p : {name}){binders} : res ({name} * {rt}) :=",
+                                    "  match p with"] + rows + ["  end."]))
+        return "\n\n".join(parts)
+
+    def import_unit(self, other: "Unit", alias: str, lift: str, targs: Dict[str, str], heads: Dict[object, str] = None,
+                    var_terms: Dict[str, str] = None, choose: Dict[object, str] = None, rets: Dict[object, str] = None,
+                    skip=()) -> str:
+        """Take the declarations of `other` -- the translation unit of another generated file (module alias `alias`) -- as
+        declarations of this one: its enums, dataclasses, marker classes, cell type, unions and classes with their translated
+        methods.  Their names are emitted qualified; `targs[type]` gives the type arguments the type takes once the other
+        file's Section is closed (`{A}`: the element type of the instance).  A call of a method of such a class is
+        `lift (@alias.gen_m <type arguments of the class> <the section variables the method uses> object args)`; `heads`
+        overrides the head for a method (`{A}`, `{eqb}`: element type and equality of the instance); `var_terms`: what the
+        other file's tracked section variables are here.  Returns the text of `lift` (an error is the error of the same name)."""
+        if not self.tables or alias in self.lifts:
+            self.abort(self.tree, f"import of {alias}: `use_tables` was not called / imported twice")
+        if skip:                              # (classes of the other file this one does not use)
+            other = copy.copy(other)
+            other.classes = {k: v for k, v in other.classes.items() if k not in skip}
+            other.done_methods = {k: v for k, v in other.done_methods.items() if k not in skip}
+        mine = set(other.enums) | set(other.datas) | set(other.classes) | set(other.markers) | set(other.unions) \
+            | set(other.trees) | set(other.enumdicts) | set(other.mappings)
+        again = {n for n in mine if n in self.quals and self.quals[n] == other.quals.get(n, alias)}   # imported before
+        clash = (mine - again) & (self.extra_names() | set(self.datas) | set(self.classes))
+        if clash:
+            self.abort(self.tree, f"import of {alias}: the names {sorted(clash)} are declared twice")
+        names = [n for n in list(other.enums) + list(other.datas) + list(other.classes) + list(other.markers)
+                 + list(other.unions) + list(other.trees) + list(other.enumdicts) if n not in again]
+        self.trees.update(other.trees)
+        self.enumdicts.update(other.enumdicts)
+        self.mappings.update(other.mappings)
+        if other.cellspec:
+            if self.cellspec:
+                self.abort(self.tree, "two cell types")
+            self.cellspec = dict(other.cellspec)
+            names.append(other.cellspec["name"])
+        self.enums.update(other.enums)
+        self.datas.update(other.datas)
+        self.data_defaults.update(other.data_defaults)
+        self.classes.update(other.classes)
+        self.markers.update(other.markers)
+        self.unions.update(other.unions)
+        for n in names:
+            self.quals[n] = other.quals.get(n, alias)
+            self.targs[n] = targs.get(n, other.targs.get(n, ""))
+        var_terms = var_terms or {}
+        for c, ms in other.done_methods.items():
+            want = {n: a for (cc, n), a in (choose or {}).items() if cc == c}
+            ms = [m for m in ms if m.name not in want or (m.alias or m.name) == want[m.name]]
+            self.done_methods[c] = list(ms)
+            for m in ms:
+                key = (c, _mkey(m))
+                if key in self.heads and c in again:
+                    continue
+                if rets and key in rets:
+                    self.ret_override[key] = rets[key]
+                self.params[key] = other.params[key]
+                if key in other.varargs:
+                    self.varargs[key] = other.varargs[key]
+                if key in other.method_defaults:
+                    self.method_defaults[key] = other.method_defaults[key]
+                self.method_uses_eqb[key] = other.method_uses_eqb.get(key, False)
+                if key in other.heads and key not in other.local_methods:
+                    self.heads[key] = other.heads[key]
+                    self.head_lift[key] = other.head_lift[key]
+                    continue
+                self.head_lift[key] = lift
+                order = list(other.section_vars) + ["eqb"] * ("eqb" not in other.section_vars)
+                used = ["{eqb}" if v == "eqb" else var_terms.get(v, v) for v in order
+                        if (v == "eqb" and self.method_uses_eqb[key]) or v in other.method_uses_vars.get(key, set())]
+                ta = targs.get("@" + c, self.targs.get(c, ""))      # ("@C": the type arguments of the functions, if they differ)
+                self.heads[key] = (heads or {}).get(key) or "(@" + " ".join(
+                    [f"{alias}.{other.prefix}{m.alias or m.name}"] + ([ta] if ta else []) + used) + ")"
+        self.lifts[alias] = lift
+        self.lifts.update(other.lifts)
+        self.errors.update(other.errors)
+        self.taken.update({lift, lift.replace("_res", "_err")})
+        errs = ["IndexError", "OutOfFuel"] + [e for e in EXTRA_ERRORS if e in other.errors]
+        err = lift.replace("_res", "_err") if lift.endswith("_res") else lift + "_err"
+        return "\n".join(
+            [f"(* the results of Gen/{alias}.v in the result type of this file: an error is the error of the same name *)",
+             f"Definition {err} (e : {alias}.err) : err :=", "  match e with"]
+            + [f"  | {alias}.{c} => {c}" for c in errs]
+            + ["  end.",
+               f"Definition {lift} {{X : Type}} (r : {alias}.res X) : res X :=",
+               f"  match r with {alias}.Ok x => Ok x | {alias}.Err e => Err ({err} e) end."])
+
+    def attrs_of(self, name: str, attrs: Dict[str, tuple]):
+        """Attributes of the values of the opaque type `name` that the translated code reads: `attribute -> (declared type,
+        Coq function)`; `x.attribute` is the function applied to the object."""
+        if not self.tables or name not in self.opaques:
+            self.abort(self.tree, f"attributes declared for {name!r}, which is not an opaque type (or `use_tables` was not called)")
+        try:
+            self.opaque_attrs[name] = {a: (norm_type(d[0], self.extra_names()), d[1]) for a, d in attrs.items()}
+        except ValueError as e:
+            self.abort(self.tree, f"unknown declared type {e.args[0]!r} for an attribute of {name}")
+        self.taken.update(d[1] for d in attrs.values())
+
+    def record_class(self, name: str, module: str, short: str, fields: Dict[str, str], methods: List[tuple]) -> str:
+        """A frozen dataclass imported by `from <module> import <name>` whose objects this file builds (`name(a, b)`, every
+        field positionally) and keeps as a Record of its own -- `fields`: the declared type of each field here, which may
+        differ from the one another generated file uses.  `methods`: (FunSpec, Coq function) of the methods called on such an
+        object, each a function the driver defines in terms of the other file (pure: `object -> res (object * result)`)."""
+        self.imported(name, module)
+        if not self.tables or name in RESERVED or name in self.extra_names() or name in self.classes:
+            self.abort(self.tree, f"class name {name!r} is in use (or `use_tables` was not called)")
+        try:
+            fields = {k: norm_type(v, self.extra_names()) for k, v in fields.items()}
+        except ValueError as e:
+            self.abort(self.tree, f"unknown declared type {e.args[0]!r} for a field of {name}")
+        specs = [self._norm(self.tree, replace(m, pure=True)) for m, _ in methods]
+        self.classes[name] = ClassSpec(name, short, fields, specs, frozen=True)
+        self.done_methods[name] = list(specs)
+        self.records = getattr(self, "records", set()) | {name}
+        for spec, (_, fn) in zip(specs, methods):
+            self.params[(name, spec.name)] = [q for q in spec.types]
+            self.method_uses_eqb[(name, spec.name)] = False
+            self.local_heads = getattr(self, "local_heads", {})
+            self.local_heads[(name, spec.name)] = fn
+        self.taken.update({f"{short}_state", "mk_" + short} | {f"{short}_{f}" for f in fields})
+        return (f"(* objects of the frozen dataclass {name} ({module}) *)\nRecord {short}_state : Type := mk_{short} {{ "
+                + "; ".join(f"{short}_{f} : {coq_type(t, self.coq_base())}" for f, t in fields.items()) + " }.")
+
+    def same_type(self, name: str, real: str):
+        """The type name `name` (the element type of an instance: `elem2`) is another name of the declared type `real`."""
+        if not self.tables:
+            self.abort(self.tree, "`use_tables` was not called")
+        self.type_alias[name] = real
+
+    def coercion(self, src: str, dst: str, fmt: str):
+        """Where a value of the declared type `dst` is expected and the expression has the declared type `src`, the value is
+        `fmt` with `{}` replaced by the term (a node where its identity is meant, a value where a key is meant)."""
+        if not self.tables:
+            self.abort(self.tree, "`use_tables` was not called")
+        self.coercions[(src, dst)] = fmt
+
+    def traversal_defs(self, tree: str) -> str:
+        """The three orders in which ete3's `traverse` visits the nodes of a binary tree of the declared type `tree`, each
+        node being the subtree it roots: "preorder" (a node, its first subtree, its second subtree), "postorder" (the two
+        subtrees, then the node) and "levelorder", the default (by increasing depth, left to right within a depth)."""
+        if tree not in self.trees:
+            self.abort(self.tree, f"traversals of {tree!r}, which is not a declared binary tree type")
+        t, q = coq_type(tree, self.coq_base()), self.q(tree) + tree
+        t = t if " " not in t else "(" + t + ")"
+        self.taken.update({f"{tree}_{x}" for x in ("preorder", "postorder", "levels", "levelorder")} | {"zip_levels"})
+        self.helpers.add("zip_levels")
+        return "\n".join([
+            f"(* the orders of ete3's traverse() on a {tree}; a node stands for the subtree it roots *)",
+            f"Fixpoint {tree}_preorder (t : {t}) : list {t} :=",
+            f"  match t with {q}_leaf _ => cons t nil | {q}_node _ a b => cons t ({tree}_preorder a ++ {tree}_preorder b) end.",
+            f"Fixpoint {tree}_postorder (t : {t}) : list {t} :=",
+            f"  match t with {q}_leaf _ => cons t nil | {q}_node _ a b => {tree}_postorder a ++ {tree}_postorder b ++ cons t nil end.",
+            f"Fixpoint {tree}_levels (t : {t}) : list (list {t}) :=",
+            f"  match t with {q}_leaf _ => cons (cons t nil) nil",
+            f"  | {q}_node _ a b => cons (cons t nil) (zip_levels ({tree}_levels a) ({tree}_levels b)) end.",
+            f"Definition {tree}_levelorder (t : {t}) : list {t} := concat ({tree}_levels t)."])
+
+    def namedtuple(self, spec: DataSpec, eqbs: Dict[str, str]) -> str:
+        """`class <name>(NamedTuple)` with exactly the declared (annotated) fields -> a Record (immutable values) and its
+        equality `<name>_eqb` (Python: the tuples are equal when their components are; `eqbs`: field -> Coq equality)."""
+        cls = self._unique(self.tree.body, spec.name, ast.ClassDef)
+        self.imported("NamedTuple", "typing")
+        if not self.tables or cls.decorator_list or cls.keywords or len(cls.bases) != 1 \
+                or not (isinstance(cls.bases[0], ast.Name) and cls.bases[0].id == "NamedTuple"):
+            self.abort(cls, f"{spec.name} is not a plain 'class {spec.name}(NamedTuple)'")
+        names = []
+        for b in cls.body:
+            if isinstance(b, ast.Expr) and isinstance(b.value, ast.Constant) and isinstance(b.value.value, str):
+                continue
+            if not (isinstance(b, ast.AnnAssign) and isinstance(b.target, ast.Name) and b.simple and b.value is None):
+                self.abort(b, f"statement of the named tuple {spec.name} other than an annotated field without default")
+            names.append(b.target.id)
+        try:
+            fields = {k: norm_type(v, self.extra_names()) for k, v in spec.fields.items()}
+        except ValueError as e:
+            self.abort(cls, f"unknown declared type {e.args[0]!r} for a field of {spec.name}")
+        if names != list(fields) or spec.name in RESERVED or list(eqbs) != names:
+            self.abort(cls, f"the fields of {spec.name} are {names}, declared {list(fields)}")
+        self.datas[spec.name] = replace(spec, fields=fields)
+        self.taken.update({spec.name, "mk_" + spec.name, spec.name + "_eqb"} | {f"{spec.name}_{f}" for f in fields})
+        n = spec.name
+        test = " ".join(f"(andb ({eqbs[f]} ({n}_{f} a) ({n}_{f} b))" for f in names) + " true" + ")" * len(names)
+        return (f"(* named tuple {n}, line {cls.lineno} *)\nRecord {n} : Type := mk_{n} {{ "
+                + "; ".join(f"{n}_{f} : {coq_type(t, self.coq_base())}" for f, t in fields.items()) + " }.\n"
+                + f"Definition {n}_eqb (a b : {n}) : bool := {test}.")
+
+    def q(self, name: str) -> str:
+        """Module qualifier of the Coq names that belong to the declared type `name`."""
+        return self.quals[name] + "." if name in self.quals else ""
+
     def enum(self, name: str) -> str:
         """`class <name>(Enum)` whose members are all `<MEMBER> = auto()` -> an Inductive and its equality."""
         cls = self._unique(self.tree.body, name, ast.ClassDef)
@@ -3058,6 +4722,8 @@ class Unit:
                     and (b.value is None or isinstance(b.value, ast.Constant))):
                 self.abort(b, f"statement of the dataclass {spec.name} other than an annotated field")
             names.append(b.target.id)
+            if isinstance(b.value, ast.Constant) and b.value.value is None:
+                self.data_defaults.setdefault(spec.name, {})[b.target.id] = "None"
         try:
             fields = {k: norm_type(v, self.extra_names()) for k, v in spec.fields.items()}
         except ValueError as e:
@@ -3118,6 +4784,9 @@ class Unit:
         spec = self._norm(fn, spec)
         fun = _Fun(self.path, copy.deepcopy(fn), spec, self.prefix, unit=self)
         text = fun.translate()
+        if self.tables:
+            self.method_uses_vars[spec.name] = set(fun.uses_vars)
+            self.method_uses_eqb[spec.name] = fun.uses_eqb
         self.functions[spec.name] = spec
         self.params[spec.name] = [x.arg for x in fn.args.args]
         if spec.mutates:
@@ -3250,6 +4919,12 @@ class Unit:
                 self.varargs[(cspec.name, key)] = fn.args.vararg.arg
         fun = _Fun(self.path, copy.deepcopy(fn), m, self.prefix, unit=self, cls=cspec)
         text = fun.translate()
+        if self.tables:
+            self.method_uses_vars[(cspec.name, key)] = set(fun.uses_vars)
+            if fun.enum_defaults:
+                self.method_defaults[(cspec.name, key)] = dict(fun.enum_defaults)
+            if cspec.name in self.quals:
+                self.local_methods.add((cspec.name, key))
         if m.owner is not None:
             text = text.replace(f"(* {cspec.name}.{fn.name}, line", f"(* {cspec.name}.{fn.name} inherited from {m.owner}, line", 1)
         self.method_uses_eqb[(cspec.name, key)] = fun.uses_eqb
